@@ -7,8 +7,23 @@
 //! the thorough tier — is generated and parsed inside a worker process with a counting
 //! allocator. Oracle C02: returns within the time limit, no panic, no abort, no single
 //! allocation request beyond the documented cap / out of proportion to the input.
-//! Oracle C08 (mode "c08", accepted inputs only): build(parse(x)) succeeds, parses again,
-//! rebuilds to identical bytes, and the logical projection is unchanged.
+//!
+//! C08 (mode "c08") has three parts, all evaluated in the same isolated workers:
+//!  (i)   accepted mutants: `y = build(parse(x))` succeeds, `parse(y)` succeeds,
+//!        `build(parse(y)) = y` byte for byte and `logical(parse(x)) = logical(parse(y))`;
+//!  (ii)  builder values: for every value `v` a format's builder produces over a small alphabet
+//!        of its own calls, `logical(parse(build(v))) = logical(v)` (and, where the builder only
+//!        returns bytes, = the model of what was put in);
+//!  (iii) every repository fixture, unmodified: `build(parse(x)) = x` byte for byte.
+//!
+//! `logical` is a per-format projection (module `proj`) onto what the property statement names:
+//! entries, keys, sizes, flags, tags, paths, spec strings, config key → values. It leaves out
+//! what a builder recomputes (counts, table sizes and offsets, page/block checksums), reserved
+//! and padding bytes, and never depends on `HashMap` iteration order. Where a format is a map
+//! the projection is order-insensitive, where order is content (ESpec table indices, tag and
+//! entry indices of the bit masks, patch lists) it is order-sensitive. When in doubt whether a
+//! field is content the question asked is "would a reader of the manifest resolve different
+//! data?" — if not, the field is left out (decision in the direction of not alarming).
 
 use crate::enumx::{PoolConfig, WorkerCtx, run_pool};
 use crate::report::{Level, Report, Tier};
@@ -18,7 +33,24 @@ use serde_json::{Value, json};
 use std::io::Cursor;
 use std::time::{Duration, Instant};
 
-pub type FixResult = Result<(), (String, String)>;
+/// A C08 finding on one input: `kind` (clause of the statement), `disc` (what tells two root
+/// causes of the same kind apart; part of the signature, therefore free of input bytes),
+/// `detail` (for the reader).
+#[derive(Debug, Clone)]
+pub struct FixErr {
+    pub kind: String,
+    pub disc: String,
+    pub detail: String,
+}
+pub type FixResult = Result<(), FixErr>;
+
+fn fix_err(kind: &str, disc: impl Into<String>, detail: impl Into<String>) -> FixErr {
+    FixErr { kind: kind.to_string(), disc: disc.into(), detail: detail.into() }
+}
+
+/// Logical projection: named sections in a fixed order (the first differing section is the
+/// discriminating detail of a `logical-content-changed` signature).
+pub type Proj = Vec<(&'static str, String)>;
 
 pub struct Target {
     pub name: &'static str,
@@ -34,37 +66,100 @@ pub struct Target {
 
 // ---------------------------------------------------------------- generic adapters
 
-fn casc_run<T: CascFormat>(d: &[u8]) -> bool {
-    T::parse(d).is_ok()
+/// Error text with everything input-specific removed (digit runs, hex runs, quoted text), so
+/// that it can be part of a signature.
+fn norm_err(msg: &str) -> String {
+    let mut out = String::new();
+    let chars: Vec<char> = msg.chars().take(200).collect();
+    let mut i = 0;
+    while i < chars.len() {
+        let c = chars[i];
+        if c == '"' || c == '\'' || c == '`' {
+            // quoted run
+            if let Some(j) = chars[i + 1..].iter().position(|x| *x == c) {
+                out.push_str("<q>");
+                i += j + 2;
+                continue;
+            }
+        }
+        if c.is_ascii_hexdigit() {
+            let mut j = i;
+            while j < chars.len() && chars[j].is_ascii_hexdigit() {
+                j += 1;
+            }
+            let run = j - i;
+            let all_alpha = chars[i..j].iter().all(|x| x.is_ascii_alphabetic());
+            let word_boundary = (i == 0 || !chars[i - 1].is_ascii_alphanumeric()) && (j == chars.len() || !chars[j].is_ascii_alphanumeric());
+            if chars[i..j].iter().any(char::is_ascii_digit) || (run >= 6 && !all_alpha && word_boundary) {
+                out.push('#');
+                i = j;
+                continue;
+            }
+        }
+        out.push(c);
+        i += 1;
+    }
+    let mut s: String = out.chars().take(90).collect();
+    while s.contains("##") {
+        s = s.replace("##", "#");
+    }
+    s
 }
 
-fn casc_fix<T: CascFormat + std::fmt::Debug>(d: &[u8], logical: fn(&T) -> String) -> FixResult {
+fn first_diff(l1: &Proj, l2: &Proj) -> Option<(String, String)> {
+    if l1.len() != l2.len() {
+        return Some(("sections".to_string(), format!("{} vs {} sections", l1.len(), l2.len())));
+    }
+    for ((n1, s1), (n2, s2)) in l1.iter().zip(l2.iter()) {
+        if n1 != n2 {
+            return Some(("sections".to_string(), format!("section {n1} vs {n2}")));
+        }
+        if s1 != s2 {
+            let at = s1.bytes().zip(s2.bytes()).position(|(a, b)| a != b).unwrap_or(s1.len().min(s2.len()));
+            let cut = |s: &str| -> String {
+                let mut lo = at.saturating_sub(70);
+                while !s.is_char_boundary(lo) {
+                    lo -= 1;
+                }
+                let mut hi = (at + 70).min(s.len());
+                while !s.is_char_boundary(hi) {
+                    hi += 1;
+                }
+                s[lo..hi].to_string()
+            };
+            // the root format version is a four-valued enumeration: which version became which
+            // tells root causes apart (V2 read back as V3 is the classic-header ambiguity)
+            let disc = if *n1 == "version" { format!("version:{s1}->{s2}") } else { (*n1).to_string() };
+            return Some((disc, format!("section `{n1}` differs near: `{}` vs `{}`", cut(s1), cut(s2))));
+        }
+    }
+    None
+}
+
+/// Part (i) of C08 on one accepted input. `hints` handed to the projection are the two
+/// serialisations (`x`, `y`): the text configs expose no key iterator, so the projection looks
+/// the keys up that occur in either text.
+fn casc_fix<T: CascFormat>(d: &[u8], logical: fn(&T, &[&[u8]]) -> Proj) -> FixResult {
     let Ok(v) = T::parse(d) else { return Ok(()) };
-    let y = v.build().map_err(|e| ("rebuild-fails".to_string(), format!("parse accepted the input but build() fails: {e}")))?;
-    let v2 = T::parse(&y).map_err(|e| ("reparse-fails".to_string(), format!("build(parse(x)) is rejected by parse: {e}")))?;
-    let z = v2.build().map_err(|e| ("second-build-fails".to_string(), format!("build(parse(build(parse(x)))) fails: {e}")))?;
+    let y = v.build().map_err(|e| fix_err("rebuild-fails", norm_err(&e.to_string()), format!("parse accepted the input but build() fails: {e}")))?;
+    let v2 = T::parse(&y).map_err(|e| fix_err("reparse-fails", norm_err(&e.to_string()), format!("build(parse(x)) is rejected by parse: {e}")))?;
+    let z = v2.build().map_err(|e| fix_err("second-build-fails", norm_err(&e.to_string()), format!("build(parse(build(parse(x)))) fails: {e}")))?;
+    let hints: [&[u8]; 2] = [d, &y];
+    let (l1, l2) = (logical(&v, &hints), logical(&v2, &hints));
+    if let Some((section, detail)) = first_diff(&l1, &l2) {
+        return Err(fix_err("logical-content-changed", section, format!("logical content of parse(x) and parse(build(parse(x))) differ: {detail}")));
+    }
     if z != y {
         let at = z.iter().zip(y.iter()).position(|(a, b)| a != b).unwrap_or(z.len().min(y.len()));
-        return Err(("not-a-fixed-point".to_string(), format!("second rebuild differs from the first at byte {at} (lengths {} vs {})", y.len(), z.len())));
-    }
-    let (l1, l2) = (logical(&v), logical(&v2));
-    if l1 != l2 {
-        let at = l1.bytes().zip(l2.bytes()).position(|(a, b)| a != b).unwrap_or(l1.len().min(l2.len()));
-        let s = at.saturating_sub(60);
-        return Err((
-            "logical-content-changed".to_string(),
-            format!("logical projection differs after rebuild near: `{}` vs `{}`", l1.get(s..(at + 60).min(l1.len())).unwrap_or(""), l2.get(s..(at + 60).min(l2.len())).unwrap_or("")),
-        ));
+        return Err(fix_err("not-a-fixed-point", if y.len() == z.len() { "same-length" } else { "length-changes" }, format!("second rebuild differs from the first at byte {at} (lengths {} vs {}) although the logical content is the same", y.len(), z.len())));
     }
     Ok(())
 }
 
-fn dbg<T: std::fmt::Debug>(v: &T) -> String {
-    format!("{v:?}")
-}
+const FIXTURE_ROOT: &str = "/repo/crates/cascette-formats/test_fixtures";
 
 fn fixtures(sub: &str, exts: &[&str]) -> Vec<(String, Vec<u8>)> {
-    let dir = std::path::Path::new("/repo/crates/cascette-formats/test_fixtures").join(sub);
+    let dir = std::path::Path::new(FIXTURE_ROOT).join(sub);
     let mut out = Vec::new();
     if let Ok(rd) = std::fs::read_dir(&dir) {
         let mut paths: Vec<_> = rd.flatten().map(|e| e.path()).collect();
@@ -81,11 +176,361 @@ fn fixtures(sub: &str, exts: &[&str]) -> Vec<(String, Vec<u8>)> {
     out
 }
 
-/// Rebuilt-and-shrunk variants are added by `small_seeds` (builder-made artifacts).
+/// Builder-made small artifacts first (simplest first), then the fixtures.
 fn with_small(mut v: Vec<(String, Vec<u8>)>, small: Vec<(String, Vec<u8>)>) -> Vec<(String, Vec<u8>)> {
     let mut out = small;
     out.append(&mut v);
     out
+}
+
+// ---------------------------------------------------------------- logical projections
+
+pub mod proj {
+    use super::Proj;
+    use cascette_formats::archive::ArchiveIndex;
+    use cascette_formats::blte::BlteFile;
+    use cascette_formats::bpsv::BpsvDocument;
+    use cascette_formats::config::{BuildConfig, CdnConfig, KeyringConfig, PatchConfig, ProductConfig};
+    use cascette_formats::download::DownloadManifest;
+    use cascette_formats::encoding::EncodingFile;
+    use cascette_formats::espec::ESpec;
+    use cascette_formats::install::{InstallManifest, InstallTag};
+    use cascette_formats::patch_archive::PatchArchive;
+    use cascette_formats::patch_index::PatchIndex;
+    use cascette_formats::root::RootFile;
+    use cascette_formats::size::SizeManifest;
+    use cascette_formats::tvfs::{ContainerFileTable, TvfsFile, VfsTable};
+    use cascette_formats::zbsdiff::ZbsDiff;
+    use std::collections::BTreeSet;
+    use std::fmt::Write as _;
+
+    fn hx(b: &[u8]) -> String {
+        hex::encode(b)
+    }
+
+    /// BLTE: the chunk table as written (format byte, per-chunk sizes and checksums — they are
+    /// input to a reader's verification and are not recomputed by `build`), every chunk's mode
+    /// and stored bytes, and what the file decodes to. Left out: `header_size` (derived).
+    pub fn blte(v: &BlteFile, _h: &[&[u8]]) -> Proj {
+        let mut table = String::new();
+        match &v.header.extended {
+            None => table.push_str("single-chunk"),
+            Some(e) => {
+                let _ = write!(table, "format={:#04x};", e.flags as u8);
+                for ci in &e.chunk_infos {
+                    let _ = write!(table, "[c={} d={} md5={} dmd5={}]", ci.compressed_size, ci.decompressed_size, hx(&ci.checksum), ci.decompressed_checksum.map(|c| hx(&c)).unwrap_or_default());
+                }
+            }
+        }
+        let mut chunks = String::new();
+        for c in &v.chunks {
+            let _ = write!(chunks, "[{}:{}]", c.mode.as_byte() as char, hx(&c.data));
+        }
+        let payload = match v.decompress() {
+            Ok(p) => format!("ok:{}", hx(&p)),
+            Err(e) => format!("err:{}", super::norm_err(&e.to_string())),
+        };
+        vec![("chunk-table", table), ("chunks", chunks), ("payload", payload)]
+    }
+
+    /// Encoding table: format parameters, the ESpec table in index order, per page its first
+    /// key and its entries, the trailing ESpec. Left out: page counts and the ESpec block size
+    /// (derived), page checksums (recomputed), page fill.
+    pub fn encoding(v: &EncodingFile, _h: &[&[u8]]) -> Proj {
+        let h = &v.header;
+        let params = format!("version={} ckey_hash={} ekey_hash={} ckey_page_kb={} ekey_page_kb={}", h.version, h.ckey_hash_size, h.ekey_hash_size, h.ckey_page_size_kb, h.ekey_page_size_kb);
+        let especs = format!("{:?}", v.espec_table.entries);
+        let mut c = String::new();
+        for (i, p) in v.ckey_pages.iter().enumerate() {
+            let _ = write!(c, "page[first={}]:", v.ckey_index.get(i).map(|x| hx(&x.first_key)).unwrap_or_default());
+            for e in &p.entries {
+                let _ = write!(c, "({} size={} n={} ->", hx(e.content_key.as_bytes()), e.file_size, e.key_count);
+                for k in &e.encoding_keys {
+                    let _ = write!(c, " {}", hx(k.as_bytes()));
+                }
+                c.push(')');
+            }
+        }
+        let mut e = String::new();
+        for (i, p) in v.ekey_pages.iter().enumerate() {
+            let _ = write!(e, "page[first={}]:", v.ekey_index.get(i).map(|x| hx(&x.first_key)).unwrap_or_default());
+            for x in &p.entries {
+                let _ = write!(e, "({} espec={} size={})", hx(x.encoding_key.as_bytes()), x.espec_index, x.file_size);
+            }
+        }
+        vec![("params", params), ("espec-table", especs), ("ckey-pages", c), ("ekey-pages", e), ("trailing-espec", format!("{:?}", v.trailing_espec))]
+    }
+
+    /// CDN archive index / archive group: field widths, entries in order (key, size, offset —
+    /// for 6-byte offsets the archive number and the offset), the table of contents (last key of
+    /// every block: it is what a reader's block search uses). Left out: element count, TOC hash,
+    /// block hashes, footer hash, reserved bytes.
+    pub fn archive_index(v: &ArchiveIndex, _h: &[&[u8]]) -> Proj {
+        let f = &v.footer;
+        let params = format!("version={} page_kb={} offset_bytes={} size_bytes={} ekey_length={}", f.version, f.page_size_kb, f.offset_bytes, f.size_bytes, f.ekey_length);
+        let mut e = String::new();
+        for x in &v.entries {
+            // a 6-byte offset is archive number (2) + offset (4); the builder may carry it as
+            // one 48-bit number: same bytes, same content
+            let combined = (u64::from(x.archive_index.unwrap_or(0)) << 32) | x.offset;
+            let _ = write!(e, "({} size={} at={:#x})", hx(&x.encoding_key), x.size, combined);
+        }
+        let toc: Vec<String> = v.toc.iter().map(|k| hx(k)).collect();
+        vec![("params", params), ("entries", e), ("toc", toc.join(","))]
+    }
+
+    /// Root manifest: the version and the multiset of records (FileDataID, name hash, content
+    /// key, locale flags, content flags). A root manifest is a map; block order, record order
+    /// inside a block and the split into blocks are not content (the builder regroups by flags).
+    /// Left out: header counts, header size, padding.
+    pub fn root(v: &RootFile, _h: &[&[u8]]) -> Proj {
+        let mut recs: Vec<(u32, u64, u32, Option<u64>, [u8; 16])> = Vec::new();
+        for b in &v.blocks {
+            for r in &b.records {
+                recs.push((b.header.locale_flags.value(), b.header.content_flags, r.file_data_id.get(), r.name_hash, *r.content_key.as_bytes()));
+            }
+        }
+        recs.sort_unstable();
+        let mut s = String::new();
+        for (l, c, f, n, k) in &recs {
+            let _ = write!(s, "(locale={l:#x} content={c:#x} fdid={f} name={} ckey={})", n.map(|x| format!("{x:#x}")).unwrap_or_else(|| "-".into()), hx(k));
+        }
+        vec![("version", format!("{:?}", v.version)), ("records", s)]
+    }
+
+    fn tags(tags: &[InstallTag], n_entries: usize) -> String {
+        let mut s = String::new();
+        for t in tags {
+            let members: Vec<String> = (0..n_entries).filter(|i| t.has_file(*i)).map(|i| i.to_string()).collect();
+            let _ = write!(s, "({:?} type={:#06x} files=[{}])", t.name, t.tag_type as u16, members.join(","));
+        }
+        s
+    }
+
+    /// Install manifest: version and key length, tags in order (name, type, the set of file
+    /// indices — not the padding bits of the last mask byte), entries in order (path, content
+    /// key, size, V2 file type). Left out: counts (including the V2 "additional entry count",
+    /// whose meaning is not known: a count is what a builder may recompute), the V2 "unknown"
+    /// byte.
+    pub fn install(v: &InstallManifest, _h: &[&[u8]]) -> Proj {
+        let h = &v.header;
+        let params = format!("version={} ckey_length={} v2_content_key_size={:?}", h.version, h.ckey_length, h.content_key_size);
+        let mut e = String::new();
+        for x in &v.entries {
+            let _ = write!(e, "({:?} {} size={} type={:?})", x.path, hx(x.content_key.as_bytes()), x.file_size, x.file_type);
+        }
+        vec![("params", params), ("tags", tags(&v.tags, v.entries.len())), ("entries", e)]
+    }
+
+    /// Download manifest: version, checksum/flag layout, base priority, entries in order
+    /// (encoding key, 40-bit size, priority, checksum, flag bytes), tags. Left out: counts,
+    /// reserved header bytes, mask padding bits.
+    pub fn download(v: &DownloadManifest, _h: &[&[u8]]) -> Proj {
+        let h = &v.header;
+        let params = format!("version={} ekey_length={} has_checksum={} flag_size={} base_priority={}", h.version(), h.ekey_length(), h.has_checksum(), h.flag_size(), h.base_priority());
+        let mut e = String::new();
+        for x in &v.entries {
+            let _ = write!(e, "({} size={} prio={} sum={:?} flags={:?})", hx(x.encoding_key.as_bytes()), x.file_size.as_u64(), x.priority, x.checksum, x.flags.as_ref().map(|f| hx(f)));
+        }
+        vec![("params", params), ("entries", e), ("tags", tags(&v.tags, v.entries.len()))]
+    }
+
+    /// Size manifest: version, key and size widths, tags, entries in order. Left out: counts
+    /// and the total (sum of the entries, validated by the parser).
+    pub fn size(v: &SizeManifest, _h: &[&[u8]]) -> Proj {
+        let h = &v.header;
+        let params = format!("version={} ekey_size={} esize_bytes={}", h.version(), h.ekey_size(), h.esize_bytes());
+        let mut e = String::new();
+        for x in &v.entries {
+            let _ = write!(e, "({} esize={})", hx(&x.key), x.esize);
+        }
+        vec![("params", params), ("tags", tags(&v.tags, v.entries.len())), ("entries", e)]
+    }
+
+    /// TVFS: flags and key sizes, the encoding spec table, and what every path resolves to —
+    /// path → spans (offset in file, length) → container entry (EKey, encoded size, CKey, spec
+    /// index, patch reference), looked up the way the format addresses them (by byte offset) —
+    /// plus the container table walked sequentially. Left out: table offsets and sizes, the
+    /// byte offsets themselves (addresses), `max_depth`, bytes no path reaches.
+    pub fn tvfs(v: &TvfsFile, _h: &[&[u8]]) -> Proj {
+        let h = &v.header;
+        let params = format!("flags={:#x} ekey_size={} pkey_size={}", h.flags, h.ekey_size, h.pkey_size);
+        let est = format!("{:?}", v.est_table.as_ref().map(|e| e.specs.clone()).unwrap_or_default());
+        let centry = |c: &cascette_formats::tvfs::ContainerEntry| format!("ekey={} esize={} ckey={} espec={:?} patch={:?}", hx(&c.ekey), c.encoded_size, c.content_key.as_ref().map(|k| hx(k)).unwrap_or_default(), c.est_index, c.patch_offset);
+        let mut files: Vec<(String, String)> = Vec::new();
+        for f in &v.path_table.files {
+            let mut s = String::new();
+            match VfsTable::read_entry_at(&v.vfs_table.data, f.vfs_offset as usize, h) {
+                Err(_) => s.push_str("no-vfs-entry"),
+                Ok(e) => {
+                    for sp in &e.spans {
+                        let _ = write!(s, "[off={} len={} ->", sp.file_offset, sp.span_length);
+                        match ContainerFileTable::read_entry_at(&v.container_table.data, sp.cft_offset as usize, h) {
+                            Ok(c) => {
+                                let _ = write!(s, " {}]", centry(&c));
+                            }
+                            Err(_) => s.push_str(" no-container-entry]"),
+                        }
+                    }
+                }
+            }
+            files.push((f.path.clone(), s));
+        }
+        files.sort_by(|a, b| a.0.cmp(&b.0)); // stable: equal paths keep table order
+        let mut fs = String::new();
+        for (p, s) in &files {
+            let _ = write!(fs, "({p:?} {s})");
+        }
+        let mut cft = String::new();
+        for c in &v.container_table.entries {
+            let _ = write!(cft, "({})", centry(c));
+        }
+        vec![("params", params), ("espec-table", est), ("files", fs), ("container-entries", cft)]
+    }
+
+    /// Patch archive: version, key widths (a key truncated to n bytes and the same bytes padded
+    /// to 16 are different keys for a reader that compares `key_size` bytes), block size,
+    /// encoding info, file entries as a map by target key (order-insensitive; the patch list of
+    /// an entry in order). Left out: block count/offsets/MD5s/last keys (derived), flag bit 0
+    /// ("plain data", informational).
+    pub fn patch_archive(v: &PatchArchive, _h: &[&[u8]]) -> Proj {
+        let h = &v.header;
+        let params = format!("version={} block_size_bits={}", h.version, h.block_size_bits);
+        let keys = format!("file={} old={} patch={}", h.file_key_size, h.old_key_size, h.patch_key_size);
+        let info = match &v.encoding_info {
+            None => "-".to_string(),
+            Some(i) => format!("ckey={} ekey={} decoded={} encoded={} espec={:?}", hx(&i.encoding_ckey), hx(&i.encoding_ekey), i.decoded_size, i.encoded_size, i.espec),
+        };
+        let mut es: Vec<String> = Vec::new();
+        for e in v.all_file_entries() {
+            let mut s = format!("({} size={}:", hx(&e.target_ckey), e.decoded_size);
+            for p in &e.patches {
+                let _ = write!(s, " [src={} srcsize={} patch={} psize={} idx={}]", hx(&p.source_ekey), p.source_decoded_size, hx(&p.patch_ekey), p.patch_size, p.patch_index);
+            }
+            s.push(')');
+            es.push(s);
+        }
+        es.sort();
+        vec![("params", params), ("key-sizes", keys), ("encoding-info", info), ("entries", es.concat())]
+    }
+
+    /// Patch index: key width and the entries in order. Left out: block layout, the constant
+    /// configuration block, the secondary copy (block 8), header sizes.
+    pub fn patch_index(v: &PatchIndex, _h: &[&[u8]]) -> Proj {
+        let mut s = String::new();
+        for e in &v.entries {
+            let _ = write!(s, "(src={} {} dst={} {} enc={} suffix={} patch={})", hx(&e.source_ekey), e.source_size, hx(&e.target_ekey), e.target_size, e.encoded_size, e.suffix_offset, hx(&e.patch_ekey));
+        }
+        vec![("key-size", v.key_size.to_string()), ("entries", s)]
+    }
+
+    /// ZBSDIFF1: output size and the three blocks as stored. Left out: the two block lengths.
+    pub fn zbsdiff(v: &ZbsDiff, _h: &[&[u8]]) -> Proj {
+        vec![("output-size", v.header.output_size.to_string()), ("control", hx(&v.control_data)), ("diff", hx(&v.diff_data)), ("extra", hx(&v.extra_data))]
+    }
+
+    /// Key candidates of a `key = value` text: everything in front of a `=` on any line of any
+    /// of the given texts (a superset of what the config parsers can have stored).
+    fn cfg_keys(hints: &[&[u8]]) -> BTreeSet<String> {
+        let mut out = BTreeSet::new();
+        for h in hints {
+            let text = String::from_utf8_lossy(h);
+            for line in text.split('\n') {
+                for (i, _) in line.match_indices('=') {
+                    out.insert(line[..i].trim().to_string());
+                }
+            }
+        }
+        out
+    }
+
+    fn kv(hints: &[&[u8]], get: impl Fn(&str) -> Option<String>) -> String {
+        let mut s = String::new();
+        for k in cfg_keys(hints) {
+            if let Some(v) = get(&k) {
+                let _ = write!(s, "({k:?} = {v})");
+            }
+        }
+        s
+    }
+
+    /// Build / CDN config: key → list of values (a map: order of keys is not content, order of
+    /// the values of one key is). Comments and blank lines are not content.
+    pub fn build_config(v: &BuildConfig, h: &[&[u8]]) -> Proj {
+        vec![("entries", kv(h, |k| v.get(k).map(|x| format!("{x:?}"))))]
+    }
+    pub fn cdn_config(v: &CdnConfig, h: &[&[u8]]) -> Proj {
+        vec![("entries", kv(h, |k| v.get(k).map(|x| format!("{x:?}"))))]
+    }
+    /// Patch config: properties as a map, patch entries in order.
+    pub fn patch_config(v: &PatchConfig, h: &[&[u8]]) -> Proj {
+        let mut e = String::new();
+        for x in v.entries() {
+            let _ = write!(e, "({:?} {:?} {} {:?} {})", x.entry_type, x.content_key, x.content_size, x.encoding_key, x.encoded_size);
+        }
+        vec![("properties", kv(h, |k| v.get_property(k).map(|x| format!("{x:?}")))), ("patch-entries", e)]
+    }
+    /// Keyring: (key id, key value) in order.
+    pub fn keyring_config(v: &KeyringConfig, _h: &[&[u8]]) -> Proj {
+        let mut e = String::new();
+        for x in v.entries() {
+            let _ = write!(e, "({:?} = {:?})", x.key_id, x.key_value);
+        }
+        vec![("keys", e)]
+    }
+
+    fn canon_json(v: &serde_json::Value, out: &mut String) {
+        match v {
+            serde_json::Value::Object(m) => {
+                let mut keys: Vec<&String> = m.keys().collect();
+                keys.sort();
+                out.push('{');
+                for k in keys {
+                    let _ = write!(out, "{k:?}:");
+                    canon_json(&m[k], out);
+                    out.push(',');
+                }
+                out.push('}');
+            }
+            serde_json::Value::Array(a) => {
+                out.push('[');
+                for x in a {
+                    canon_json(x, out);
+                    out.push(',');
+                }
+                out.push(']');
+            }
+            other => {
+                let _ = write!(out, "{other}");
+            }
+        }
+    }
+
+    /// Product config: the typed document as canonical JSON (object keys sorted).
+    pub fn product_config(v: &ProductConfig, _h: &[&[u8]]) -> Proj {
+        let mut s = String::new();
+        match serde_json::to_value(v) {
+            Ok(j) => canon_json(&j, &mut s),
+            Err(e) => s = format!("unserialisable: {e}"),
+        }
+        vec![("document", s)]
+    }
+
+    /// BPSV: schema (names and types in order), sequence number, rows (raw text and typed value
+    /// of every cell, in order).
+    pub fn bpsv(v: &BpsvDocument, _h: &[&[u8]]) -> Proj {
+        let schema: Vec<String> = v.schema().fields().iter().map(|f| format!("{:?}!{:?}", f.name, f.field_type)).collect();
+        let mut rows = String::new();
+        for r in v.rows() {
+            let _ = write!(rows, "({:?} => {:?})", r.raw_values(), r.values());
+        }
+        vec![("schema", schema.join("|")), ("seqn", format!("{:?}", v.sequence_number())), ("rows", rows)]
+    }
+
+    /// ESpec: the expression tree (plain values, no derived fields).
+    pub fn espec(v: &ESpec, _h: &[&[u8]]) -> Proj {
+        vec![("spec", format!("{v:?}"))]
+    }
 }
 
 // ---------------------------------------------------------------- targets
@@ -107,6 +552,10 @@ mod t {
     use cascette_formats::tvfs::TvfsFile;
     use cascette_formats::zbsdiff::ZbsDiff;
 
+    fn small(fmt: &str) -> Vec<(String, Vec<u8>)> {
+        crate::props::c02::small_seeds(fmt)
+    }
+
     pub fn blte_run(d: &[u8]) -> bool {
         match BlteFile::parse(d) {
             Ok(f) => {
@@ -119,7 +568,7 @@ mod t {
         }
     }
     pub fn blte_fix(d: &[u8]) -> FixResult {
-        casc_fix::<BlteFile>(d, |v| format!("{:?}", v.decompress().map_err(|e| e.to_string())))
+        casc_fix::<BlteFile>(d, proj::blte)
     }
     pub fn blte_seeds() -> Vec<(String, Vec<u8>)> {
         let mut v = Vec::new();
@@ -147,63 +596,98 @@ mod t {
         EncodingFile::parse_blte(d).is_ok()
     }
     pub fn encoding_fix(d: &[u8]) -> FixResult {
-        casc_fix::<EncodingFile>(d, dbg)
+        casc_fix::<EncodingFile>(d, proj::encoding)
     }
     pub fn encoding_seeds() -> Vec<(String, Vec<u8>)> {
-        with_small(fixtures("encoding", &[".bin"]), crate::props::c02::small_seeds("encoding"))
+        with_small(fixtures("encoding", &[".bin"]), small("encoding"))
+    }
+    pub fn encoding_blte_seeds() -> Vec<(String, Vec<u8>)> {
+        small("encoding_blte")
     }
 
     pub fn archive_index_run(d: &[u8]) -> bool {
         ArchiveIndex::parse(Cursor::new(d)).is_ok()
     }
     pub fn archive_index_fix(d: &[u8]) -> FixResult {
-        casc_fix::<ArchiveIndex>(d, |v| format!("{:?}", v.entries))
+        casc_fix::<ArchiveIndex>(d, proj::archive_index)
     }
     pub fn archive_index_seeds() -> Vec<(String, Vec<u8>)> {
-        with_small(fixtures("archive", &[".index"]), crate::props::c02::small_seeds("archive_index"))
+        with_small(fixtures("archive", &[".index"]), small("archive_index"))
     }
     pub fn archive_group_run(d: &[u8]) -> bool {
         ArchiveGroup::parse(&mut Cursor::new(d)).is_ok()
+    }
+    /// An archive group is an archive index with 6-byte offsets: what `ArchiveGroup::parse`
+    /// accepts, `ArchiveIndex` (the `CascFormat` of both) must be able to write back.
+    pub fn archive_group_fix(d: &[u8]) -> FixResult {
+        if ArchiveGroup::parse(&mut Cursor::new(d)).is_err() {
+            return Ok(());
+        }
+        casc_fix::<ArchiveIndex>(d, proj::archive_index)
+    }
+    pub fn archive_group_seeds() -> Vec<(String, Vec<u8>)> {
+        small("archive_group")
     }
 
     pub fn root_run(d: &[u8]) -> bool {
         RootFile::parse(d).is_ok()
     }
+    /// A rebuilt V2 manifest gets the 12-byte classic header `magic, total_files, named_files`.
+    /// With 16..=99 files, fewer than 10 of them named, the parser takes these two counts for
+    /// the `header_size, version` of an extended header (format-level ambiguity, known finding
+    /// of C03). Whatever that does to the re-parse (it fails, or it reads the file as V3) is
+    /// one root cause and gets one discriminator.
     pub fn root_fix(d: &[u8]) -> FixResult {
-        casc_fix::<RootFile>(d, |v| format!("{:?}", v.blocks))
+        let r = casc_fix::<RootFile>(d, proj::root);
+        let Err(mut e) = r else { return r };
+        if let Ok(v) = RootFile::parse(d) {
+            if v.version == cascette_formats::root::RootVersion::V2 {
+                if let Ok(y) = CascFormat::build(&v) {
+                    if y.len() >= 12 && (&y[..4] == b"TSFM" || &y[..4] == b"MFST") {
+                        let rd = |b: &[u8]| if &y[..4] == b"TSFM" { u32::from_le_bytes([b[0], b[1], b[2], b[3]]) } else { u32::from_be_bytes([b[0], b[1], b[2], b[3]]) };
+                        let (total, named) = (rd(&y[4..8]), rd(&y[8..12]));
+                        if (16..100).contains(&total) && named < 10 && named < total {
+                            e.disc = "v2-classic-header-ambiguity".to_string();
+                            e.detail = format!("{} [the rebuilt file has the classic V2 header with total_files={total}, named_files={named}, which the parser reads as an extended header]", e.detail);
+                        }
+                    }
+                }
+            }
+        }
+        Err(e)
     }
     pub fn root_seeds() -> Vec<(String, Vec<u8>)> {
-        with_small(fixtures("root", &[".root"]), crate::props::c02::small_seeds("root"))
+        with_small(fixtures("root", &[".root"]), small("root"))
     }
 
     pub fn install_run(d: &[u8]) -> bool {
         InstallManifest::parse(d).is_ok()
     }
     pub fn install_fix(d: &[u8]) -> FixResult {
-        casc_fix::<InstallManifest>(d, |v| format!("{:?}|{:?}", v.tags, v.entries))
+        casc_fix::<InstallManifest>(d, proj::install)
     }
     pub fn install_seeds() -> Vec<(String, Vec<u8>)> {
-        with_small(fixtures("install", &[".install"]), crate::props::c02::small_seeds("install"))
+        with_small(fixtures("install", &[".install"]), small("install"))
     }
 
     pub fn download_run(d: &[u8]) -> bool {
         DownloadManifest::parse(d).is_ok()
     }
     pub fn download_fix(d: &[u8]) -> FixResult {
-        casc_fix::<DownloadManifest>(d, |v| format!("{:?}|{:?}", v.tags, v.entries))
+        casc_fix::<DownloadManifest>(d, proj::download)
     }
     pub fn download_seeds() -> Vec<(String, Vec<u8>)> {
-        with_small(fixtures("download", &[".download"]), crate::props::c02::small_seeds("download"))
+        with_small(fixtures("download", &[".download"]), small("download"))
     }
 
     pub fn size_run(d: &[u8]) -> bool {
         SizeManifest::parse(d).is_ok()
     }
     pub fn size_fix(d: &[u8]) -> FixResult {
-        casc_fix::<SizeManifest>(d, dbg)
+        casc_fix::<SizeManifest>(d, proj::size)
     }
     pub fn size_seeds() -> Vec<(String, Vec<u8>)> {
-        crate::props::c02::small_seeds("size")
+        small("size")
     }
 
     pub fn tvfs_run(d: &[u8]) -> bool {
@@ -213,33 +697,33 @@ mod t {
         TvfsFile::load_from_blte(d).is_ok()
     }
     pub fn tvfs_fix(d: &[u8]) -> FixResult {
-        casc_fix::<TvfsFile>(d, dbg)
+        casc_fix::<TvfsFile>(d, proj::tvfs)
     }
     pub fn tvfs_seeds() -> Vec<(String, Vec<u8>)> {
-        with_small(fixtures("tvfs", &[".bin"]), crate::props::c02::small_seeds("tvfs"))
+        with_small(fixtures("tvfs", &[".bin"]), small("tvfs"))
     }
     pub fn tvfs_blte_seeds() -> Vec<(String, Vec<u8>)> {
-        fixtures("tvfs", &[".blte"])
+        with_small(fixtures("tvfs", &[".blte"]), small("tvfs_blte"))
     }
 
     pub fn patch_archive_run(d: &[u8]) -> bool {
         <PatchArchive as CascFormat>::parse(d).is_ok()
     }
     pub fn patch_archive_fix(d: &[u8]) -> FixResult {
-        casc_fix::<PatchArchive>(d, dbg)
+        casc_fix::<PatchArchive>(d, proj::patch_archive)
     }
     pub fn patch_archive_seeds() -> Vec<(String, Vec<u8>)> {
-        fixtures("patch_archive", &[".bin"])
+        with_small(fixtures("patch_archive", &[".bin"]), small("patch_archive"))
     }
 
     pub fn patch_index_run(d: &[u8]) -> bool {
         <PatchIndex as CascFormat>::parse(d).is_ok()
     }
     pub fn patch_index_fix(d: &[u8]) -> FixResult {
-        casc_fix::<PatchIndex>(d, dbg)
+        casc_fix::<PatchIndex>(d, proj::patch_index)
     }
     pub fn patch_index_seeds() -> Vec<(String, Vec<u8>)> {
-        fixtures("patch_index", &[".bin"])
+        with_small(fixtures("patch_index", &[".bin"]), small("patch_index"))
     }
 
     pub fn zbsdiff_run(d: &[u8]) -> bool {
@@ -253,29 +737,29 @@ mod t {
         a || b || c
     }
     pub fn zbsdiff_fix(d: &[u8]) -> FixResult {
-        casc_fix::<ZbsDiff>(d, dbg)
+        casc_fix::<ZbsDiff>(d, proj::zbsdiff)
     }
     pub fn zbsdiff_seeds() -> Vec<(String, Vec<u8>)> {
-        with_small(fixtures("zbsdiff", &[".zbsdiff"]), crate::props::c02::small_seeds("zbsdiff"))
+        with_small(fixtures("zbsdiff", &[".zbsdiff"]), small("zbsdiff"))
     }
 
     macro_rules! cfg_target {
-        ($run:ident, $fix:ident, $ty:ty) => {
+        ($run:ident, $fix:ident, $ty:ty, $proj:path) => {
             pub fn $run(d: &[u8]) -> bool {
                 <$ty as CascFormat>::parse(d).is_ok()
             }
             pub fn $fix(d: &[u8]) -> FixResult {
-                casc_fix::<$ty>(d, dbg)
+                casc_fix::<$ty>(d, $proj)
             }
         };
     }
-    cfg_target!(build_config_run, build_config_fix, BuildConfig);
-    cfg_target!(cdn_config_run, cdn_config_fix, CdnConfig);
-    cfg_target!(patch_config_run, patch_config_fix, PatchConfig);
-    cfg_target!(product_config_run, product_config_fix, ProductConfig);
-    cfg_target!(keyring_config_run, keyring_config_fix, KeyringConfig);
-    cfg_target!(bpsv_run, bpsv_fix, BpsvDocument);
-    cfg_target!(espec_run, espec_fix, ESpec);
+    cfg_target!(build_config_run, build_config_fix, BuildConfig, proj::build_config);
+    cfg_target!(cdn_config_run, cdn_config_fix, CdnConfig, proj::cdn_config);
+    cfg_target!(patch_config_run, patch_config_fix, PatchConfig, proj::patch_config);
+    cfg_target!(product_config_run, product_config_fix, ProductConfig, proj::product_config);
+    cfg_target!(keyring_config_run, keyring_config_fix, KeyringConfig, proj::keyring_config);
+    cfg_target!(bpsv_run, bpsv_fix, BpsvDocument, proj::bpsv);
+    cfg_target!(espec_run, espec_fix, ESpec, proj::espec);
 
     pub fn build_config_seeds() -> Vec<(String, Vec<u8>)> {
         let mut v = vec![
@@ -288,7 +772,8 @@ mod t {
         vec![("text:cdn-config-min".to_string(), b"# CDN Configuration\n\narchives = 0123456789abcdef0123456789abcdef fedcba9876543210fedcba9876543210\narchives-index-size = 10 20\narchive-group = 0123456789abcdef0123456789abcdef\nfile-index = 0123456789abcdef0123456789abcdef\nfile-index-size = 5\n".to_vec())]
     }
     pub fn patch_config_seeds() -> Vec<(String, Vec<u8>)> {
-        vec![("text:patch-config-min".to_string(), b"# Patch Configuration\n\npatch-entry = encoding 0123456789abcdef0123456789abcdef 10 fedcba9876543210fedcba9876543210 20 b:{*=z} 0123456789abcdef0123456789abcdef 5 fedcba9876543210fedcba9876543210 6\npatch = 0123456789abcdef0123456789abcdef\npatch-size = 7\n".to_vec())]
+        // the patch-entry lines have the 6 and 7 fields the parser accepts
+        vec![("text:patch-config-min".to_string(), b"# Patch Configuration\npatch = 0123456789abcdef0123456789abcdef\npatch-size = 7\npatch-entry = encoding 0123456789abcdef0123456789abcdef 10 fedcba9876543210fedcba9876543210 20\npatch-entry = install fedcba9876543210fedcba9876543210 30 0123456789abcdef0123456789abcdef\n".to_vec())]
     }
     pub fn product_config_seeds() -> Vec<(String, Vec<u8>)> {
         vec![("text:product-config-min".to_string(), br#"{"all":{"config":{"product":"wow","supported_locales":["enUS"],"form":{"game_dir":{"dirname":"World of Warcraft"}}}},"platform":{"win":{"config":{"binaries":{"game":{"relative_path":"Wow.exe"}}}}}}"#.to_vec())]
@@ -478,9 +963,6 @@ mod t {
     pub fn local_header_seeds() -> Vec<(String, Vec<u8>)> {
         vec![("raw:local-header-30".to_string(), (0u8..30).collect()), ("raw:segment-header-480".to_string(), vec![7u8; 480])]
     }
-    pub fn archive_group_seeds() -> Vec<(String, Vec<u8>)> {
-        crate::props::c02::small_seeds("archive_group")
-    }
 }
 
 pub fn targets() -> Vec<Target> {
@@ -490,9 +972,9 @@ pub fn targets() -> Vec<Target> {
     vec![
         Target { name: "blte", run: t::blte_run, decompresses: true, fix: Some(t::blte_fix), seeds: t::blte_seeds, text: None },
         Target { name: "encoding", run: t::encoding_run, decompresses: false, fix: Some(t::encoding_fix), seeds: t::encoding_seeds, text: None },
-        Target { name: "encoding-blte", run: t::encoding_blte_run, decompresses: true, fix: None, seeds: t::tvfs_blte_seeds, text: None },
+        Target { name: "encoding-blte", run: t::encoding_blte_run, decompresses: true, fix: None, seeds: t::encoding_blte_seeds, text: None },
         Target { name: "archive-index", run: t::archive_index_run, decompresses: false, fix: Some(t::archive_index_fix), seeds: t::archive_index_seeds, text: None },
-        Target { name: "archive-group", run: t::archive_group_run, decompresses: false, fix: None, seeds: t::archive_group_seeds, text: None },
+        Target { name: "archive-group", run: t::archive_group_run, decompresses: false, fix: Some(t::archive_group_fix), seeds: t::archive_group_seeds, text: None },
         Target { name: "root", run: t::root_run, decompresses: false, fix: Some(t::root_fix), seeds: t::root_seeds, text: None },
         Target { name: "install", run: t::install_run, decompresses: false, fix: Some(t::install_fix), seeds: t::install_seeds, text: None },
         Target { name: "download", run: t::download_run, decompresses: false, fix: Some(t::download_fix), seeds: t::download_seeds, text: None },
@@ -520,11 +1002,10 @@ pub fn targets() -> Vec<Target> {
     ]
 }
 
-/// Builder-made small artifacts per format (filled by `seeds.rs`).
+/// Builder-made small artifacts per format (`seeds.rs`).
 pub fn small_seeds(fmt: &str) -> Vec<(String, Vec<u8>)> {
     crate::props::seeds::small(fmt)
 }
-
 // ---------------------------------------------------------------- mutant classes
 
 const BOUNDARY: [u8; 6] = [0x00, 0x01, 0x7F, 0x80, 0xFE, 0xFF];
@@ -537,6 +1018,10 @@ pub enum Class {
     Window,
     Pair,
     Text,
+    /// C08 part (ii): builder values (the "seed" is the format, the case index the program)
+    Builder,
+    /// C08 part (iii): unmodified fixtures
+    Fixture,
 }
 
 impl Class {
@@ -548,6 +1033,8 @@ impl Class {
             Class::Window => "window",
             Class::Pair => "pair",
             Class::Text => "text",
+            Class::Builder => "builder",
+            Class::Fixture => "fixture",
         }
     }
     fn from(s: &str) -> Class {
@@ -557,13 +1044,20 @@ impl Class {
             "ext" => Class::Ext,
             "window" => Class::Window,
             "pair" => Class::Pair,
+            "builder" => Class::Builder,
+            "fixture" => Class::Fixture,
             _ => Class::Text,
         }
     }
 }
 
-fn subst_positions(n: usize, thorough: bool) -> Vec<usize> {
-    if n <= 4096 || thorough {
+/// C08 costs two parses, two builds and two projections per accepted case (tens of milliseconds
+/// on the 200 KB root fixture): above this size its thorough tier substitutes at the quick tier's
+/// positions and leaves the pair class out.
+pub const C08_ALL_POSITIONS_MAX: usize = 32 * 1024;
+
+fn subst_positions(n: usize, thorough: bool, c08: bool) -> Vec<usize> {
+    if n <= FULL_SUBST_MAX || thorough && (!c08 || n <= C08_ALL_POSITIONS_MAX) {
         (0..n).collect()
     } else {
         let mut v: Vec<usize> = (0..512.min(n)).collect();
@@ -575,8 +1069,54 @@ fn subst_positions(n: usize, thorough: bool) -> Vec<usize> {
     }
 }
 
-fn subst_values(n: usize, orig: u8) -> Vec<u8> {
-    if n <= 4096 {
+/// Seeds up to this size get all 255 substitute values at every position (a minimal archive
+/// index — one 4 KiB block, one TOC entry, the footer — is 4148 bytes).
+pub const FULL_SUBST_MAX: usize = 4352;
+/// Fixtures above this size get the boundary value set in the quick tier (the builder-made
+/// seeds of the same format carry the exhaustive enumeration there).
+pub const QUICK_FIXTURE_FULL_MAX: usize = 640;
+
+/// Whether byte substitution is exhaustive over all 255 values for this seed.
+pub fn full_subst(seed_name: &str, len: usize, thorough: bool) -> bool {
+    len <= FULL_SUBST_MAX && (thorough || !seed_name.starts_with("fixture:") || len <= QUICK_FIXTURE_FULL_MAX)
+}
+
+/// Quick tier: inside long runs of zero fill (page and block padding, more than
+/// `FILL_DISTANCE` bytes away from the nearest non-zero byte and from both ends of the seed) a
+/// position gets the boundary value set instead of all 255 values. The thorough tier makes no
+/// such difference.
+pub const FILL_DISTANCE: usize = 48;
+
+fn dense_map(seed: &[u8], full: bool, thorough: bool) -> Vec<bool> {
+    let n = seed.len();
+    if thorough || !full {
+        return vec![true; n];
+    }
+    // distance to the nearest non-zero byte (or end of the seed), two sweeps
+    let mut dist = vec![usize::MAX; n];
+    let mut last: Option<usize> = None;
+    for p in 0..n {
+        if seed[p] != 0 || p == 0 || p + 1 == n {
+            last = Some(p);
+        }
+        if let Some(q) = last {
+            dist[p] = p - q;
+        }
+    }
+    last = None;
+    for p in (0..n).rev() {
+        if seed[p] != 0 || p == 0 || p + 1 == n {
+            last = Some(p);
+        }
+        if let Some(q) = last {
+            dist[p] = dist[p].min(q - p);
+        }
+    }
+    dist.iter().map(|d| *d <= FILL_DISTANCE).collect()
+}
+
+fn subst_values(full: bool, orig: u8) -> Vec<u8> {
+    if full {
         (0..=255u8).filter(|v| *v != orig).collect()
     } else {
         let mut v: Vec<u8> = BOUNDARY.to_vec();
@@ -589,7 +1129,7 @@ fn subst_values(n: usize, orig: u8) -> Vec<u8> {
 }
 
 fn trunc_lengths(n: usize, thorough: bool) -> Vec<usize> {
-    if n <= 4096 || thorough && n <= 65536 {
+    if n <= FULL_SUBST_MAX || thorough && n <= 65536 {
         (0..n).collect()
     } else {
         let mut v: Vec<usize> = (0..512.min(n)).collect();
@@ -671,10 +1211,13 @@ fn pair_windows(n: usize) -> Vec<(usize, Vec<u8>)> {
     out
 }
 
-fn class_count(class: Class, seed: &[u8], thorough: bool, text: Option<(&'static [&'static str], usize, usize)>) -> u64 {
+fn class_count(class: Class, seed: &[u8], full: bool, thorough: bool, c08: bool, text: Option<(&'static [&'static str], usize, usize)>) -> u64 {
     let n = seed.len();
     match class {
-        Class::Subst => subst_positions(n, thorough).iter().map(|p| subst_values(n, seed[*p]).len() as u64).sum(),
+        Class::Subst => {
+            let dense = dense_map(seed, full, thorough);
+            subst_positions(n, thorough, c08).iter().map(|p| subst_values(full && dense[*p], seed[*p]).len() as u64).sum()
+        }
         Class::Trunc => trunc_lengths(n, thorough).len() as u64,
         Class::Ext => 6,
         Class::Window => windows(n).len() as u64,
@@ -697,19 +1240,21 @@ fn class_count(class: Class, seed: &[u8], thorough: bool, text: Option<(&'static
             }
             None => 0,
         },
+        Class::Builder | Class::Fixture => 0,
     }
 }
 
 /// Enumerate the cases lo..hi of a class, calling `f(idx, bytes)`.
-fn for_each_case(class: Class, seed: &[u8], thorough: bool, text: Option<(&'static [&'static str], usize, usize)>, lo: u64, hi: u64, mut f: impl FnMut(u64, &[u8])) {
+fn for_each_case(class: Class, seed: &[u8], full: bool, thorough: bool, c08: bool, text: Option<(&'static [&'static str], usize, usize)>, lo: u64, hi: u64, mut f: impl FnMut(u64, &[u8])) {
     let n = seed.len();
     let mut buf = seed.to_vec();
     let mut idx = 0u64;
     match class {
         Class::Subst => {
-            for p in subst_positions(n, thorough) {
+            let dense = dense_map(seed, full, thorough);
+            for p in subst_positions(n, thorough, c08) {
                 let orig = seed[p];
-                let vals = subst_values(n, orig);
+                let vals = subst_values(full && dense[p], orig);
                 if idx + vals.len() as u64 <= lo {
                     idx += vals.len() as u64;
                     continue;
@@ -832,6 +1377,984 @@ fn for_each_case(class: Class, seed: &[u8], thorough: bool, text: Option<(&'stat
                 }
             }
         }
+        Class::Builder | Class::Fixture => {}
+    }
+}
+
+// ---------------------------------------------------------------- C08 part (ii): builder values
+
+/// Every format's builder is driven over a small alphabet of its own calls (mixed-radix
+/// enumeration, every combination once); the built value is serialised, parsed again and its
+/// logical projection compared with that of the built value — and, where a builder only hands
+/// out bytes, with the model of what was put in. The deep exploration of the builders (page
+/// and chunk boundaries, long programs) is C01/C03/C16/C19; this part is the round-trip clause
+/// of C08 over values that stay clear of the boundaries those checks own.
+pub mod bv {
+    use super::{FixErr, FixResult, Proj, first_diff, fix_err, norm_err, proj};
+    use cascette_crypto::{ContentKey, EncodingKey};
+    use cascette_formats::CascFormat;
+    use std::fmt::Write as _;
+    use std::io::Cursor;
+
+    pub enum Outcome {
+        /// the round trip held
+        Held,
+        /// the builder refused the program (no value produced: nothing to check)
+        Refused(String),
+        Violation(FixErr),
+    }
+
+    pub struct Case {
+        pub desc: String,
+        pub outcome: Outcome,
+    }
+
+    struct Digits(u64);
+    impl Digits {
+        fn take(&mut self, n: u64) -> u64 {
+            let d = self.0 % n;
+            self.0 /= n;
+            d
+        }
+    }
+
+    pub const FORMATS: &[&str] = &[
+        "blte", "encoding", "archive-index", "archive-group", "root", "install", "download", "size", "tvfs", "zbsdiff", "patch-archive", "patch-index", "build-config", "cdn-config", "patch-config", "keyring-config",
+        "bpsv", "espec",
+    ];
+
+    fn radices(fmt: &str, thorough: bool) -> Vec<u64> {
+        let t = u64::from(thorough);
+        match fmt {
+            "blte" => vec![5 + t, 3, 7],
+            "encoding" => vec![5 + t, 2, 3, 2, 3, 2],
+            "archive-index" => vec![2, 3, 6, 2],
+            "archive-group" => vec![5, 2],
+            "root" => vec![4, 32, 2],
+            "install" => vec![10 + 8 * t, 3, 4, 2, 2],
+            "download" => vec![3, 2, 5, 2, 4 + 2 * t, 2, 3],
+            "size" => vec![2, 3, 4, 4 + 2 * t, 2, 3, 3],
+            "tvfs" => vec![6, 5, 2],
+            "zbsdiff" => vec![5, 5, 4],
+            "patch-archive" => vec![5, 2, 2, 2, 2],
+            "patch-index" => vec![3, 4 + t],
+            "build-config" | "cdn-config" => vec![16, 3],
+            "patch-config" => vec![8, 3],
+            "keyring-config" => vec![4, 2],
+            "bpsv" => vec![3, 3, 3, 2],
+            "espec" => vec![espec_values().len() as u64],
+            _ => vec![0],
+        }
+    }
+
+    pub fn count(fmt: &str, thorough: bool) -> u64 {
+        radices(fmt, thorough).iter().product()
+    }
+
+    fn key(tag: u8, i: u32) -> [u8; 16] {
+        let mut k = [0u8; 16];
+        for (j, b) in k.iter_mut().enumerate() {
+            *b = tag.wrapping_mul(29).wrapping_add((j as u8).wrapping_mul(11)).wrapping_add((i as u8).wrapping_mul(67)) | 1;
+        }
+        // strictly increasing in i (big-endian), never all zero
+        k[0] = 0x08 + (i >> 8) as u8;
+        k[1] = i as u8;
+        k
+    }
+
+    fn e2s<E: std::fmt::Display>(e: E) -> String {
+        e.to_string()
+    }
+
+    /// `logical(parse(build(v))) = logical(v)` for a value of the format's own type.
+    fn roundtrip<T: CascFormat>(v: &T, logical: fn(&T, &[&[u8]]) -> Proj) -> FixResult {
+        let y = v.build().map_err(|e| fix_err("built-value-unserialisable", norm_err(&e.to_string()), format!("the builder handed out a value whose build() fails: {e}")))?;
+        let p = T::parse(&y).map_err(|e| fix_err("built-value-unparseable", norm_err(&e.to_string()), format!("parse rejects the serialisation of a builder value ({} bytes): {e}", y.len())))?;
+        let hints: [&[u8]; 1] = [&y];
+        match first_diff(&logical(v, &hints), &logical(&p, &hints)) {
+            None => Ok(()),
+            Some((section, detail)) => Err(fix_err("built-value-changed", section, format!("logical content of the builder value and of parse(build(value)) differ: {detail}"))),
+        }
+    }
+
+    /// The sections a model names must be equal in the parsed value.
+    fn against_model(model: &Proj, parsed: &Proj) -> FixResult {
+        for (name, want) in model {
+            let got = parsed.iter().find(|(n, _)| n == name).map(|(_, s)| s.as_str()).unwrap_or("<section missing>");
+            if got != want {
+                let d = first_diff(&vec![(*name, want.clone())], &vec![(*name, got.to_string())]).map(|x| x.1).unwrap_or_default();
+                return Err(fix_err("built-value-changed", format!("model:{name}"), format!("what was put into the builder (left) and what parse(build) returns (right) differ: {d}")));
+            }
+        }
+        Ok(())
+    }
+
+    fn parsed<T: CascFormat>(bytes: &[u8]) -> Result<T, FixErr> {
+        T::parse(bytes).map_err(|e| fix_err("built-value-unparseable", norm_err(&e.to_string()), format!("parse rejects the {} bytes the builder wrote: {e}", bytes.len())))
+    }
+
+    fn done(desc: String, r: Result<FixResult, String>) -> Case {
+        Case {
+            desc,
+            outcome: match r {
+                Err(refused) => Outcome::Refused(refused),
+                Ok(Ok(())) => Outcome::Held,
+                Ok(Err(e)) => Outcome::Violation(e),
+            },
+        }
+    }
+
+    pub fn eval(fmt: &str, idx: u64, thorough: bool) -> Case {
+        let mut d = Digits(idx);
+        let r = radices(fmt, thorough);
+        let mut dg: Vec<u64> = Vec::new();
+        for x in &r {
+            dg.push(d.take(*x));
+        }
+        match fmt {
+            "blte" => blte(&dg),
+            "encoding" => encoding(&dg),
+            "archive-index" => archive_index(&dg),
+            "archive-group" => archive_group(&dg),
+            "root" => root(&dg),
+            "install" => install(&dg),
+            "download" => download(&dg),
+            "size" => size(&dg),
+            "tvfs" => tvfs(&dg),
+            "zbsdiff" => zbsdiff(&dg),
+            "patch-archive" => patch_archive(&dg),
+            "patch-index" => patch_index(&dg),
+            "build-config" => build_config(&dg),
+            "cdn-config" => cdn_config(&dg),
+            "patch-config" => patch_config(&dg),
+            "keyring-config" => keyring_config(&dg),
+            "bpsv" => bpsv(&dg),
+            "espec" => espec(&dg),
+            _ => Case { desc: format!("unknown format {fmt}"), outcome: Outcome::Refused("unknown".into()) },
+        }
+    }
+
+    // ---- BLTE
+    fn payload(class: u64) -> Vec<u8> {
+        match class {
+            0 => Vec::new(),
+            1 => vec![0x42],
+            2 => b"abcabca".to_vec(),
+            3 => b"hello hello hello hello hello hello world".to_vec(),
+            4 => (0..300u32).map(|i| (i * 7 % 251) as u8).collect(),
+            _ => (0..5000u32).map(|i| (i % 13) as u8).collect(),
+        }
+    }
+
+    fn blte(dg: &[u64]) -> Case {
+        use cascette_formats::blte::{BlteBuilder, BlteFile, CompressionMode};
+        let data = payload(dg[0]);
+        let (mode, mname) = [(CompressionMode::None, "N"), (CompressionMode::ZLib, "Z"), (CompressionMode::LZ4, "4")][dg[1] as usize];
+        let how = ["single_chunk", "compress(cs=1)", "compress(cs=3)", "compress(cs=16)", "compress(cs=len)", "builder.add_data", "builder(cs=4).add_data;add_data"][dg[2] as usize];
+        let desc = format!("blte: {how} payload={}B mode={mname}", data.len());
+        let built: Result<(BlteFile, Vec<u8>), String> = match dg[2] {
+            0 => BlteFile::single_chunk(data.clone(), mode).map(|f| (f, data.clone())).map_err(e2s),
+            1 => BlteFile::compress(&data, 1, mode).map(|f| (f, data.clone())).map_err(e2s),
+            2 => BlteFile::compress(&data, 3, mode).map(|f| (f, data.clone())).map_err(e2s),
+            3 => BlteFile::compress(&data, 16, mode).map(|f| (f, data.clone())).map_err(e2s),
+            4 => BlteFile::compress(&data, data.len(), mode).map(|f| (f, data.clone())).map_err(e2s),
+            5 => BlteBuilder::new().with_compression(mode).add_data(&data).and_then(BlteBuilder::build).map(|f| (f, data.clone())).map_err(e2s),
+            _ => {
+                let second = b"-tail".to_vec();
+                let mut all = data.clone();
+                all.extend_from_slice(&second);
+                BlteBuilder::new().with_compression(mode).with_chunk_size_unchecked(4).add_data(&data).and_then(|b| b.add_data(&second)).and_then(BlteBuilder::build).map(|f| (f, all)).map_err(e2s)
+            }
+        };
+        done(
+            desc,
+            built.map(|(f, plain)| {
+                roundtrip(&f, proj::blte)?;
+                let y = CascFormat::build(&f).map_err(|e| fix_err("built-value-unserialisable", "", e.to_string()))?;
+                let p: BlteFile = parsed(&y)?;
+                against_model(&vec![("payload", format!("ok:{}", hex::encode(&plain)))], &proj::blte(&p, &[]))
+            }),
+        )
+    }
+
+    // ---- encoding
+    fn encoding(dg: &[u64]) -> Case {
+        use cascette_formats::encoding::{CKeyEntryData, EKeyEntryData, EncodingBuilder};
+        let n = [0u32, 1, 2, 3, 40, 400][dg[0] as usize];
+        let per = dg[1] as u32 + 1;
+        let espec_of = |i: u32| -> &'static str {
+            match dg[2] {
+                0 => "z",
+                1 => ["z", "n"][(i % 2) as usize],
+                _ => ["b:{*=z}", "n", "z:{9,mpq}"][(i % 3) as usize],
+            }
+        };
+        let trailing = dg[3] == 1;
+        let (pc, pe) = [(1u16, 1u16), (1, 2), (4, 4)][dg[4] as usize];
+        let desc_order = dg[5] == 1;
+        let desc = format!("encoding: {n} ckeys × {per} ekeys, especs pattern {}, trailing={trailing}, pages {pc}K/{pe}K, inserted {}", dg[2], if desc_order { "descending" } else { "ascending" });
+        let mut b = EncodingBuilder::new().with_page_sizes(pc, pe);
+        if trailing {
+            b = b.with_trailing_espec("b:{22=n,*=z}".to_string());
+        }
+        let order: Vec<u32> = if desc_order { (0..n).rev().collect() } else { (0..n).collect() };
+        for i in order {
+            let eks: Vec<EncodingKey> = (0..per).map(|j| EncodingKey::from_bytes(key(0xE0 + j as u8, i))).collect();
+            // sizes are 40-bit fields: the values stay inside what the format can say
+            b.add_ckey_entry(CKeyEntryData { content_key: ContentKey::from_bytes(key(0xC0, i)), file_size: 1000 + u64::from(i % 200) * 0x1_0000_0001, encoding_keys: eks.clone() });
+            for (j, ek) in eks.iter().enumerate() {
+                b.add_ekey_entry(EKeyEntryData { encoding_key: *ek, espec: espec_of(i + j as u32).to_string(), file_size: 500 + u64::from(i % 7) * 0x20_0000_0003 });
+            }
+        }
+        done(
+            desc,
+            b.build().map_err(e2s).map(|f| {
+                roundtrip(&f, proj::encoding)?;
+                // what went in: n content keys, n × per encoding keys, the trailing spec
+                let y = f.build().map_err(|e| fix_err("built-value-unserialisable", "", e.to_string()))?;
+                let p: cascette_formats::encoding::EncodingFile = parsed(&y)?;
+                if p.ckey_count() != n as usize || p.ekey_count() != (n * per) as usize {
+                    return Err(fix_err("built-value-changed", "model:entry-count", format!("{n} content keys and {} encoding keys went in, parse(build) has {} and {}", n * per, p.ckey_count(), p.ekey_count())));
+                }
+                Ok(())
+            }),
+        )
+    }
+
+    // ---- archive index / group
+    fn archive_index(dg: &[u64]) -> Case {
+        use cascette_formats::archive::{ArchiveIndex, ArchiveIndexBuilder};
+        let ks = [9u8, 16][dg[0] as usize];
+        let ob = [4u8, 5, 6][dg[1] as usize];
+        let rpb = 4096 / (ks as usize + 4 + ob as usize);
+        let n = [0usize, 1, 2, 3, rpb, rpb + 1][dg[2] as usize];
+        let desc_order = dg[3] == 1;
+        let desc = format!("archive-index: with_config(key={ks}, offset_bytes={ob}, size_bytes=4), {n} entries inserted {}", if desc_order { "descending" } else { "ascending" });
+        let mut b = ArchiveIndexBuilder::with_config(ks, ob, 4);
+        let order: Vec<usize> = if desc_order { (0..n).rev().collect() } else { (0..n).collect() };
+        for i in order {
+            let off = match ob {
+                4 => i as u64 * 4096,
+                5 => 0x1_0000_0000 + i as u64 * 4096,
+                _ => 0x0003_0000_0000 + i as u64 * 4096,
+            };
+            b.add_entry(key(0xA0, i as u32)[..ks as usize].to_vec(), 100 + i as u32, off);
+        }
+        let mut buf = Vec::new();
+        done(
+            desc,
+            b.build(Cursor::new(&mut buf)).map_err(e2s).map(|v| {
+                let p = ArchiveIndex::parse(Cursor::new(&buf[..])).map_err(|e| fix_err("built-value-unparseable", norm_err(&e.to_string()), format!("parse rejects the {} bytes the builder wrote: {e}", buf.len())))?;
+                match first_diff(&proj::archive_index(&v, &[]), &proj::archive_index(&p, &[])) {
+                    None => Ok(()),
+                    Some((s, d)) => Err(fix_err("built-value-changed", s, format!("the index the builder returned and parse(bytes it wrote) differ: {d}"))),
+                }
+            }),
+        )
+    }
+
+    fn archive_group(dg: &[u64]) -> Case {
+        use cascette_formats::archive::{ArchiveGroup, ArchiveGroupBuilder, ArchiveGroupEntry};
+        let n = [0u32, 1, 3, 157, 158][dg[0] as usize];
+        let high_idx = dg[1] == 1;
+        let desc = format!("archive-group: {n} entries, archive numbers {}", if high_idx { "up to 0xFFFF" } else { "small" });
+        let mut b = ArchiveGroupBuilder::new();
+        for i in 0..n {
+            let ai = if high_idx { 0xFFFF - (i as u16 % 3) } else { (i % 3) as u16 };
+            b.add_entry(ArchiveGroupEntry::new(key(0xB0, i).to_vec(), ai, 4096 * i + 7, 200 + i));
+        }
+        let fmt = |g: &ArchiveGroup| -> Proj {
+            let mut s = String::new();
+            for e in &g.entries {
+                let _ = write!(s, "({} archive={} offset={} size={})", hex::encode(&e.encoding_key), e.archive_index, e.offset, e.size);
+            }
+            vec![("entries", s)]
+        };
+        let mut buf = Vec::new();
+        done(
+            desc,
+            b.build(Cursor::new(&mut buf)).map_err(e2s).map(|v| {
+                let p = ArchiveGroup::parse(&mut Cursor::new(&buf[..])).map_err(|e| fix_err("built-value-unparseable", norm_err(&e.to_string()), format!("ArchiveGroup::parse rejects the {} bytes the builder wrote: {e}", buf.len())))?;
+                match first_diff(&fmt(&v), &fmt(&p)) {
+                    None => Ok(()),
+                    Some((s, d)) => Err(fix_err("built-value-changed", s, format!("the group the builder returned and parse(bytes it wrote) differ: {d}"))),
+                }
+            }),
+        )
+    }
+
+    // ---- root
+    fn root(dg: &[u64]) -> Case {
+        use cascette_crypto::md5::FileDataId;
+        use cascette_formats::root::{ContentFlags, LocaleFlags, RootBuilder, RootFile, RootVersion};
+        let (ver, vn) = [(RootVersion::V1, 1), (RootVersion::V2, 2), (RootVersion::V3, 3), (RootVersion::V4, 4)][dg[0] as usize];
+        let subset = dg[1];
+        let rev = dg[2] == 1;
+        let en = LocaleFlags::ENUS;
+        let de = LocaleFlags::ENUS | LocaleFlags::DEDE;
+        let inst = ContentFlags::INSTALL;
+        let noname = ContentFlags::INSTALL | ContentFlags::NO_NAME_HASH;
+        // (fdid, locale, content, name hash)
+        let universe: [(u32, u32, u64, Option<u64>); 5] = [(100, en, inst, Some(0x1111_2222_3333_4444)), (103, en, inst, Some(0x5555_6666_7777_8888)), (200, de, inst, Some(0x9999_AAAA_BBBB_CCCC)), (300, LocaleFlags::ALL, noname, None), (100, de, inst, Some(0x1111_2222_3333_4444))];
+        let mut items: Vec<usize> = (0..5).filter(|i| subset >> i & 1 == 1).collect();
+        if rev {
+            items.reverse();
+        }
+        let desc = format!("root: V{vn}, add_file_with_hash of items {items:?} of [(100,enUS),(103,enUS),(200,enUS|deDE),(300,all,no-name-hash),(100,enUS|deDE)]");
+        let mut b = RootBuilder::new(ver);
+        let mut model: Vec<(u32, u64, u32, Option<u64>, [u8; 16])> = Vec::new();
+        for i in &items {
+            let (fdid, l, c, h) = universe[*i];
+            let ck = key(0xD0, *i as u32);
+            b.add_file_with_hash(FileDataId::new(fdid), ContentKey::from_bytes(ck), h, LocaleFlags::new(l), ContentFlags::new(c));
+            // V1 stores a name hash with every record (an absent one is written as 0); from V2
+            // on a block flagged NO_NAME_HASH stores none. Neither is a loss of content.
+            let stored = if vn == 1 { Some(h.unwrap_or(0)) } else if c & ContentFlags::NO_NAME_HASH != 0 { None } else { Some(h.unwrap_or(0)) };
+            model.push((l, c, fdid, stored, ck));
+        }
+        model.sort_unstable();
+        let mut s = String::new();
+        for (l, c, f, n, k) in &model {
+            let _ = write!(s, "(locale={l:#x} content={c:#x} fdid={f} name={} ckey={})", n.map(|x| format!("{x:#x}")).unwrap_or_else(|| "-".into()), hex::encode(k));
+        }
+        done(
+            desc,
+            b.build().map_err(e2s).map(|bytes| {
+                let p: RootFile = parsed(&bytes)?;
+                against_model(&vec![("version", format!("{ver:?}")), ("records", s)], &proj::root(&p, &[]))
+            }),
+        )
+    }
+
+    // ---- install / download / size
+    fn member(pattern: u64, tag: usize, file: usize, n: usize) -> bool {
+        match pattern {
+            0 => false,
+            1 => true,
+            2 => (file + tag) % 2 == 0,
+            _ => file + 1 == n,
+        }
+    }
+
+    fn install(dg: &[u64]) -> Case {
+        use cascette_formats::install::{InstallHeader, InstallManifestBuilder, TagType};
+        let n = dg[0] as usize;
+        let nt = dg[1] as usize;
+        let pattern = dg[2];
+        let tags_first = dg[3] == 1;
+        let v2 = dg[4] == 1;
+        let desc = format!("install: {} {n} files, {nt} tags ({}), membership pattern {pattern}", if v2 { "V2 (re-opened)," } else { "V1," }, if tags_first { "tags added first" } else { "files added first" });
+        let tag_defs = [("Windows", TagType::Platform), ("enUS", TagType::Locale)];
+        let r = (|| -> Result<cascette_formats::install::InstallManifest, String> {
+            let mut b = InstallManifestBuilder::new();
+            let add_tags = |mut b: InstallManifestBuilder| {
+                for (name, ty) in tag_defs.iter().take(nt) {
+                    b = b.add_tag((*name).to_string(), *ty);
+                }
+                b
+            };
+            let add_files = |mut b: InstallManifestBuilder, lo: usize, hi: usize| {
+                for i in lo..hi {
+                    b = b.add_file(format!("dir{}/file{i}.bin", i % 3), ContentKey::from_bytes(key(0x10, i as u32)), 1000 + i as u32 * 0x0101_0101);
+                }
+                b
+            };
+            // V2 exists for the builder only as a re-opened V2 manifest: the first file is made
+            // V2 by hand, the builder adds the rest
+            let first = if v2 { n.min(1) } else { n };
+            if tags_first {
+                b = add_files(add_tags(b), 0, first);
+            } else {
+                b = add_tags(add_files(b, 0, first));
+            }
+            if v2 {
+                let mut m = b.build().map_err(e2s)?;
+                m.header = InstallHeader::new_v2(m.header.tag_count, m.header.entry_count, 16, 0);
+                for e in &mut m.entries {
+                    e.file_type = Some(3);
+                }
+                b = add_files(InstallManifestBuilder::from_manifest(&m), first, n);
+            }
+            for t in 0..nt {
+                for f in 0..n {
+                    if member(pattern, t, f, n) {
+                        b = b.associate_file_with_tag(f, tag_defs[t].0).map_err(e2s)?;
+                    }
+                }
+            }
+            b.build().map_err(e2s)
+        })();
+        done(
+            desc,
+            r.map(|m| {
+                roundtrip(&m, proj::install)?;
+                // what went in: the membership pattern
+                let mut want = String::new();
+                for (t, (name, ty)) in tag_defs.iter().take(nt).enumerate() {
+                    let members: Vec<String> = (0..n).filter(|f| member(pattern, t, *f, n)).map(|f| f.to_string()).collect();
+                    let _ = write!(want, "({:?} type={:#06x} files=[{}])", name, *ty as u16, members.join(","));
+                }
+                let y = m.build().map_err(|e| fix_err("built-value-unserialisable", "", e.to_string()))?;
+                let p: cascette_formats::install::InstallManifest = parsed(&y)?;
+                against_model(&vec![("tags", want)], &proj::install(&p, &[]))
+            }),
+        )
+    }
+
+    fn download(dg: &[u64]) -> Case {
+        use cascette_formats::download::{DownloadManifest, DownloadManifestBuilder, TagType};
+        let v = dg[0] as u8 + 1;
+        let sums = dg[1] == 1;
+        let fs = dg[2] as u8;
+        let base: i8 = if dg[3] == 1 { -2 } else { 0 };
+        let n = [0usize, 1, 8, 9, 16, 17][dg[4] as usize];
+        let nt = if dg[5] == 1 { 2 } else { 0 };
+        let pattern = dg[6];
+        let desc = format!("download: V{v} checksums={sums} flag_size={fs} base_priority={base}, {n} files, {nt} tags, membership pattern {pattern}");
+        let tag_defs = [("Windows", TagType::Platform), ("Alt", TagType::Alternate)];
+        let r = (|| -> Result<DownloadManifest, String> {
+            let mut b = DownloadManifestBuilder::new(v).map_err(e2s)?.with_checksums(sums).with_flags(fs).map_err(e2s)?.with_base_priority(base).map_err(e2s)?;
+            for i in 0..n {
+                let size = if i == 1 { 0xFF_FFFF_FFFF } else { 1000 + i as u64 * 0x01_0101_0101 };
+                b = b.add_file(EncodingKey::from_bytes(key(0x20, i as u32)), size, (i as i8).wrapping_mul(37)).map_err(e2s)?;
+            }
+            for (name, ty) in tag_defs.iter().take(nt) {
+                b = b.add_tag((*name).to_string(), *ty);
+            }
+            for i in 0..n {
+                if sums {
+                    b = b.set_file_checksum(i, 0x0101_0101u32.wrapping_mul(i as u32 + 1)).map_err(e2s)?;
+                }
+                if fs > 0 {
+                    b = b.set_file_flags(i, (0..fs).map(|j| 0xA0 + j * 16 + i as u8).collect()).map_err(e2s)?;
+                }
+                for t in 0..nt {
+                    if member(pattern, t, i, n) {
+                        b = b.associate_file_with_tag(i, tag_defs[t].0).map_err(e2s)?;
+                    }
+                }
+            }
+            b.build().map_err(e2s)
+        })();
+        done(
+            desc,
+            r.map(|m| {
+                roundtrip(&m, proj::download)?;
+                let mut want = String::new();
+                for (t, (name, ty)) in tag_defs.iter().take(nt).enumerate() {
+                    let members: Vec<String> = (0..n).filter(|f| member(pattern, t, *f, n)).map(|f| f.to_string()).collect();
+                    let _ = write!(want, "({:?} type={:#06x} files=[{}])", name, *ty as u16, members.join(","));
+                }
+                let mut ents = String::new();
+                for i in 0..n {
+                    let size = if i == 1 { 0xFF_FFFF_FFFFu64 } else { 1000 + i as u64 * 0x01_0101_0101 };
+                    let sum = if sums { Some(0x0101_0101u32.wrapping_mul(i as u32 + 1)) } else { None };
+                    let flags: Option<String> = if fs > 0 { Some(hex::encode((0..fs).map(|j| 0xA0 + j * 16 + i as u8).collect::<Vec<u8>>())) } else { None };
+                    let _ = write!(ents, "({} size={size} prio={} sum={sum:?} flags={flags:?})", hex::encode(key(0x20, i as u32)), (i as i8).wrapping_mul(37));
+                }
+                let y = m.build().map_err(|e| fix_err("built-value-unserialisable", "", e.to_string()))?;
+                let p: DownloadManifest = parsed(&y)?;
+                against_model(&vec![("entries", ents), ("tags", want)], &proj::download(&p, &[]))
+            }),
+        )
+    }
+
+    fn size(dg: &[u64]) -> Case {
+        use cascette_formats::install::TagType;
+        use cascette_formats::size::{SizeManifest, SizeManifestBuilder};
+        let v = dg[0] as u8 + 1;
+        let ks = [1u8, 9, 16][dg[1] as usize];
+        let w = [1u8, 3, 4, 8][dg[2] as usize];
+        let n = [0usize, 1, 8, 9, 16, 17][dg[3] as usize];
+        let nt = if dg[4] == 1 { 2 } else { 0 };
+        let pattern = dg[5];
+        let width = if v == 2 { 4 } else { w };
+        let max: u64 = if width >= 7 { 1 << 52 } else { (1u64 << (8 * u32::from(width))) - 1 };
+        let esize = |i: usize| -> u64 {
+            match dg[6] {
+                0 => 1 + i as u64 * 13,
+                1 => {
+                    if i == 0 {
+                        max
+                    } else {
+                        i as u64
+                    }
+                }
+                // one past what the width can hold (the builder takes a u64)
+                _ => {
+                    if i == 0 && width < 7 {
+                        max + 1
+                    } else {
+                        i as u64
+                    }
+                }
+            }
+        };
+        let desc = format!("size: V{v} ekey_size={ks} esize_bytes={w}, {n} entries, {nt} tags, membership pattern {pattern}, esize class {}", ["small", "largest for the width", "one past the width"][dg[6] as usize]);
+        let tag_defs = [("Windows", TagType::Platform), ("enUS", TagType::Locale)];
+        let mut b = SizeManifestBuilder::new().version(v).ekey_size(ks).esize_bytes(w);
+        for (name, ty) in tag_defs.iter().take(nt) {
+            b = b.add_tag((*name).to_string(), *ty);
+        }
+        for i in 0..n {
+            b = b.add_entry(key(0x30, i as u32)[..ks as usize].to_vec(), esize(i));
+        }
+        for t in 0..nt {
+            for f in 0..n {
+                if member(pattern, t, f, n) {
+                    b = b.tag_file(t, f);
+                }
+            }
+        }
+        done(
+            desc,
+            b.build().map_err(e2s).map(|m| {
+                roundtrip(&m, proj::size)?;
+                let mut ents = String::new();
+                for i in 0..n {
+                    let _ = write!(ents, "({} esize={})", hex::encode(&key(0x30, i as u32)[..ks as usize]), esize(i));
+                }
+                let y = m.build().map_err(|e| fix_err("built-value-unserialisable", "", e.to_string()))?;
+                let p: SizeManifest = parsed(&y)?;
+                against_model(&vec![("entries", ents)], &proj::size(&p, &[]))
+            }),
+        )
+    }
+
+    // ---- TVFS
+    fn tvfs(dg: &[u64]) -> Case {
+        use cascette_formats::tvfs::{TVFS_FLAG_ENCODING_SPEC, TVFS_FLAG_INCLUDE_CKEY, TVFS_FLAG_PATCH_SUPPORT, TvfsBuilder, TvfsFile};
+        let flags = [0u32, 1, 3, 5, 7, 2][dg[0] as usize];
+        let paths: &[&str] = [&[][..], &["a"][..], &["a/b.txt", "a/c.txt", "d"][..], &["a", "a/b"][..], &["dir/sub/x", "dir/sub/y", "dir/z", "w"][..]][dg[1] as usize];
+        let with_specs = dg[2] == 1;
+        let est = flags & TVFS_FLAG_ENCODING_SPEC != 0;
+        let specs: Vec<String> = if est && with_specs { vec!["z".to_string(), "b:{*=n}".to_string()] } else { Vec::new() };
+        let desc = format!("tvfs: with_flags({flags:#x}), {} encoding specs, files {paths:?}", specs.len());
+        let mut b = TvfsBuilder::with_flags(flags);
+        for s in &specs {
+            b.add_est_spec(s.clone());
+        }
+        let mut files: Vec<(String, String)> = Vec::new();
+        for (i, p) in paths.iter().enumerate() {
+            let mut ek = [0u8; 9];
+            ek.copy_from_slice(&key(0x40, i as u32)[..9]);
+            let ck = key(0x48, i as u32);
+            let (es, cs) = (100 + i as u32, 0x0102_0300 + i as u32);
+            let idx = if specs.is_empty() { None } else { Some(i as u32 % 2) };
+            match idx {
+                Some(x) => b.add_file_with_est((*p).to_string(), ek, es, cs, Some(ck), x),
+                None => b.add_file((*p).to_string(), ek, es, cs, Some(ck)),
+            }
+            let ckey = if flags & TVFS_FLAG_INCLUDE_CKEY != 0 { hex::encode(&ck[..9]) } else { String::new() };
+            let espec: Option<u32> = if est { Some(idx.unwrap_or(0)) } else { None };
+            let patch: Option<u32> = if flags & TVFS_FLAG_PATCH_SUPPORT != 0 { Some(0) } else { None };
+            files.push(((*p).to_string(), format!("[off=0 len={cs} -> ekey={} esize={es} ckey={ckey} espec={espec:?} patch={patch:?}]", hex::encode(ek))));
+        }
+        files.sort();
+        let mut fs = String::new();
+        for (p, s) in &files {
+            let _ = write!(fs, "({p:?} {s})");
+        }
+        done(
+            desc,
+            b.build().map_err(e2s).map(|bytes| {
+                let p: TvfsFile = parsed(&bytes)?;
+                against_model(&vec![("params", format!("flags={flags:#x} ekey_size=9 pkey_size=9")), ("espec-table", format!("{specs:?}")), ("files", fs)], &proj::tvfs(&p, &[]))
+            }),
+        )
+    }
+
+    // ---- ZBSDIFF
+    fn zbsdiff(dg: &[u64]) -> Case {
+        use cascette_formats::zbsdiff::{ZbsDiff, ZbsdiffBuilder};
+        let text = |c: u64| -> Vec<u8> {
+            match c {
+                0 => Vec::new(),
+                1 => b"a".to_vec(),
+                2 => b"abcabc".to_vec(),
+                3 => b"the quick brown fox jumps over the lazy dog".to_vec(),
+                _ => (0..300u32).map(|i| b"0123456789abcdef"[(i * i % 16) as usize]).collect(),
+            }
+        };
+        let (old, new) = (text(dg[0]), text(dg[1]));
+        let how = ["build_simple_patch", "build_chunked_patch(max_diff_block_size=4)", "build_chunked_patch", "build"][dg[2] as usize];
+        let desc = format!("zbsdiff: {how} old={}B new={}B", old.len(), new.len());
+        let b = ZbsdiffBuilder::new(old.clone(), new.clone());
+        let r = match dg[2] {
+            0 => b.build_simple_patch(),
+            1 => b.with_max_diff_block_size(4).build_chunked_patch(),
+            2 => b.build_chunked_patch(),
+            _ => b.build(),
+        };
+        done(
+            desc,
+            r.map_err(e2s).map(|bytes| {
+                let p: ZbsDiff = parsed(&bytes)?;
+                let again = p.build().map_err(|e| fix_err("built-value-unserialisable", "", e.to_string()))?;
+                if again != bytes {
+                    return Err(fix_err("built-value-changed", "bytes", "build(parse(patch)) differs from the patch the builder wrote".to_string()));
+                }
+                match p.apply(&old) {
+                    Ok(out) if out == new => Ok(()),
+                    Ok(out) => Err(fix_err("built-value-changed", "model:effect", format!("the parsed patch turns old into {} bytes that are not new ({} bytes)", out.len(), new.len()))),
+                    Err(e) => Err(fix_err("built-value-changed", "model:effect", format!("the parsed patch does not apply to old: {e}"))),
+                }
+            }),
+        )
+    }
+
+    // ---- patch archive / patch index
+    fn patch_archive(dg: &[u64]) -> Case {
+        use cascette_formats::patch_archive::{PatchArchive, PatchArchiveBuilder, PatchArchiveEncodingInfo};
+        let n = [0u32, 1, 2, 3, 70][dg[0] as usize];
+        let per = dg[1] as u32 + 1;
+        let info = dg[2] == 1;
+        let version = dg[3] as u8 + 1;
+        let rev = dg[4] == 1;
+        let desc = format!("patch-archive: version {version}, block_size_bits 12, {n} file entries × {per} patches, encoding info {info}, inserted {}", if rev { "descending" } else { "ascending" });
+        let mut b = PatchArchiveBuilder::new().version(version).block_size_bits(12);
+        let einfo = PatchArchiveEncodingInfo { encoding_ckey: key(0x50, 0), encoding_ekey: key(0x50, 1), decoded_size: 1000, encoded_size: 600, espec: "b:{*=z}".to_string() };
+        if info {
+            b = b.encoding_info(einfo.clone());
+        }
+        let order: Vec<u32> = if rev { (0..n).rev().collect() } else { (0..n).collect() };
+        let mut es: Vec<String> = Vec::new();
+        for i in order {
+            let patches: Vec<([u8; 16], u64, [u8; 16], u32, u8)> = (0..per).map(|j| (key(0x5A + j as u8, i), 0xFF_0000_0000 + u64::from(i), key(0x5C + j as u8, i), 200 + i, j as u8)).collect();
+            let mut s = format!("({} size={}:", hex::encode(key(0x58, i)), 2000 + u64::from(i));
+            for p in &patches {
+                let _ = write!(s, " [src={} srcsize={} patch={} psize={} idx={}]", hex::encode(p.0), p.1, hex::encode(p.2), p.3, p.4);
+            }
+            s.push(')');
+            es.push(s);
+            b.add_file_entry(key(0x58, i), 2000 + u64::from(i), patches);
+        }
+        es.sort();
+        let info_s = if info { format!("ckey={} ekey={} decoded=1000 encoded=600 espec={:?}", hex::encode(einfo.encoding_ckey), hex::encode(einfo.encoding_ekey), einfo.espec) } else { "-".to_string() };
+        done(
+            desc,
+            b.build().map_err(e2s).map(|bytes| {
+                let p: PatchArchive = parsed(&bytes)?;
+                against_model(&vec![("params", format!("version={version} block_size_bits=12")), ("key-sizes", "file=16 old=16 patch=16".to_string()), ("encoding-info", info_s), ("entries", es.concat())], &proj::patch_archive(&p, &[]))
+            }),
+        )
+    }
+
+    fn patch_index(dg: &[u64]) -> Case {
+        use cascette_formats::patch_index::{PatchIndex, PatchIndexBuilder, PatchIndexEntry};
+        let ks = [1u8, 9, 16][dg[0] as usize];
+        let n = [0u32, 1, 2, 5, 300][dg[1] as usize];
+        let desc = format!("patch-index: key_size({ks}), {n} entries");
+        let mut b = PatchIndexBuilder::new().key_size(ks);
+        // a key wider than key_size is cut on write: the model has the cut key
+        let cut = |k: [u8; 16]| {
+            let mut o = [0u8; 16];
+            o[..ks as usize].copy_from_slice(&k[..ks as usize]);
+            o
+        };
+        let mut s = String::new();
+        for i in 0..n {
+            let e = PatchIndexEntry { source_ekey: key(0x60, i), source_size: 1000 + i, target_ekey: key(0x62, i), target_size: 0xFFFF_0000 + i, encoded_size: 1500 + i, suffix_offset: (i % 2) as u8, patch_ekey: key(0x64, i / 2) };
+            let _ = write!(s, "(src={} {} dst={} {} enc={} suffix={} patch={})", hex::encode(cut(e.source_ekey)), e.source_size, hex::encode(cut(e.target_ekey)), e.target_size, e.encoded_size, e.suffix_offset, hex::encode(cut(e.patch_ekey)));
+            b.add_entry(e);
+        }
+        done(
+            desc,
+            b.build().map_err(e2s).map(|bytes| {
+                let p: PatchIndex = parsed(&bytes)?;
+                against_model(&vec![("key-size", ks.to_string()), ("entries", s)], &proj::patch_index(&p, &[]))
+            }),
+        )
+    }
+
+    // ---- text configs
+    fn values(shape: u64, salt: usize) -> Vec<String> {
+        match shape {
+            0 => vec![format!("{:032x}", 0x0123_4567_89ab_cdefu64 + salt as u64)],
+            1 => vec![format!("{:032x}", 0xfedc_ba98u64 + salt as u64), "200".to_string()],
+            _ => Vec::new(),
+        }
+    }
+
+    fn build_config(dg: &[u64]) -> Case {
+        use cascette_formats::config::BuildConfig;
+        let keys = ["root", "encoding", "build-name", "x-custom"];
+        let chosen: Vec<&str> = (0..4).filter(|i| dg[0] >> i & 1 == 1).map(|i| keys[i]).collect();
+        let desc = format!("build-config: set {chosen:?}, value shape {}", ["one value", "two values", "no value"][dg[1] as usize]);
+        let mut c = BuildConfig::new();
+        for (i, k) in chosen.iter().enumerate() {
+            c.set(*k, values(dg[1], i));
+        }
+        done(desc, Ok(roundtrip(&c, proj::build_config)))
+    }
+
+    fn cdn_config(dg: &[u64]) -> Case {
+        use cascette_formats::config::CdnConfig;
+        let keys = ["archives", "archive-group", "file-index", "x-custom"];
+        let chosen: Vec<&str> = (0..4).filter(|i| dg[0] >> i & 1 == 1).map(|i| keys[i]).collect();
+        let desc = format!("cdn-config: set {chosen:?}, value shape {}", ["one value", "two values", "no value"][dg[1] as usize]);
+        let mut c = CdnConfig::new();
+        for (i, k) in chosen.iter().enumerate() {
+            c.set(*k, values(dg[1], i));
+        }
+        done(desc, Ok(roundtrip(&c, proj::cdn_config)))
+    }
+
+    fn patch_config(dg: &[u64]) -> Case {
+        use cascette_formats::config::{PatchConfig, PatchEntry};
+        let desc = format!("patch-config: properties subset {:#05b} of [patch, patch-size, x-custom], {} patch entries", dg[0], dg[1]);
+        let mut c = PatchConfig::new();
+        if dg[0] & 1 == 1 {
+            c.set_patch_hash(format!("{:032x}", 0xabcdu64));
+        }
+        if dg[0] & 2 == 2 {
+            c.set_patch_size(12345);
+        }
+        if dg[0] & 4 == 4 {
+            c.set_property("x-custom", "some value");
+        }
+        for i in 0..dg[1] {
+            c.add_entry(PatchEntry::new(["encoding", "install"][i as usize % 2], format!("{:032x}", 0x1000u64 + i), 100 + i, format!("{:032x}", 0x2000u64 + i), 50 + i));
+        }
+        done(desc, Ok(roundtrip(&c, proj::patch_config)))
+    }
+
+    fn keyring_config(dg: &[u64]) -> Case {
+        use cascette_formats::config::KeyringConfig;
+        let upper = dg[1] == 1;
+        let desc = format!("keyring-config: {} entries, {} hex", dg[0], if upper { "upper-case" } else { "lower-case" });
+        let mut c = KeyringConfig::new();
+        for i in 0..dg[0] {
+            let (id, val) = (format!("{:016x}", 0xfa50_5078_126a_cb3eu64 + i), format!("{:032x}", 0xbdc5_1862_abed_79b2u64 + i));
+            if upper {
+                c.add_entry(id.to_uppercase(), val.to_uppercase());
+            } else {
+                c.add_entry(id, val);
+            }
+        }
+        done(desc, Ok(roundtrip(&c, proj::keyring_config)))
+    }
+
+    // ---- BPSV
+    fn bpsv(dg: &[u64]) -> Case {
+        use cascette_formats::bpsv::{BpsvBuilder, BpsvField, BpsvType, BpsvValue};
+        let nf = dg[0] as usize + 1;
+        let nr = dg[1] as usize;
+        let pat = dg[2];
+        let seqn = dg[3] == 1;
+        let desc = format!("bpsv: {nf} fields of [Region!STRING:0, BuildConfig!HEX:16, BuildId!DEC:4], {nr} rows, cell pattern {}, seqn {seqn}", ["all set", "some empty", "negative/upper"][pat as usize]);
+        let fields = [BpsvField::new("Region", BpsvType::String(0)), BpsvField::new("BuildConfig", BpsvType::Hex(16)), BpsvField::new("BuildId", BpsvType::Dec(4))];
+        let mut b = BpsvBuilder::new();
+        b.add_fields(fields[..nf].to_vec());
+        if seqn {
+            b.set_sequence(4_000_000_000);
+        }
+        let mut refused = None;
+        for r in 0..nr {
+            let cells: Vec<BpsvValue> = (0..nf)
+                .map(|c| match (c, pat) {
+                    // the first column is never empty: a row of empty cells is an empty line
+                    (0, _) => BpsvValue::String(["us", "eu"][r % 2].to_string()),
+                    (_, 1) if (r + c) % 2 == 0 => BpsvValue::Empty,
+                    (1, _) => BpsvValue::Hex(vec![0xAB, 0x00 + r as u8, 0xFF]),
+                    (_, 2) => BpsvValue::Dec(-7 - r as i64),
+                    _ => BpsvValue::Dec(42 + r as i64),
+                })
+                .collect();
+            if let Err(e) = b.add_row(cells) {
+                refused = Some(e.to_string());
+            }
+        }
+        if let Some(e) = refused {
+            return done(desc, Err(e));
+        }
+        let doc = b.build();
+        done(desc, Ok(roundtrip(&doc, proj::bpsv)))
+    }
+
+    // ---- ESpec
+    fn espec_values() -> Vec<cascette_formats::espec::ESpec> {
+        use cascette_formats::espec::{BlockChunk, BlockSizeSpec, ESpec, ZLibVariant};
+        let mut leaves: Vec<ESpec> = vec![ESpec::None];
+        for level in [None, Some(1u8), Some(9)] {
+            for variant in [None, Some(ZLibVariant::MPQ), Some(ZLibVariant::ZLib), Some(ZLibVariant::LZ4HC)] {
+                for window_bits in [None, Some(15u8)] {
+                    // The ESpec grammar writes variant and window bits only after a level
+                    // ("z:{15}" reads as level 15, "z:{mpq}" is no ESpec): values without a
+                    // level but with one of the two are outside what the text format can say
+                    // and outside what the parser produces; they are not part of the alphabet
+                    // (decision in the direction of not alarming; `Display` does print them).
+                    if level.is_none() && (variant.is_some() || window_bits.is_some()) {
+                        continue;
+                    }
+                    leaves.push(ESpec::ZLib { level, variant: variant.clone(), window_bits });
+                }
+            }
+        }
+        for bcn in [None, Some(1u8), Some(7)] {
+            leaves.push(ESpec::BCPack { bcn });
+        }
+        for level in [None, Some(1u8), Some(12)] {
+            leaves.push(ESpec::GDeflate { level });
+        }
+        let mut out = leaves.clone();
+        for iv in [vec![0x01u8, 0x02, 0x03, 0x04], vec![1, 2, 3, 4, 5, 6, 7, 8], vec![0xAB]] {
+            for inner in [ESpec::None, ESpec::ZLib { level: Some(9), variant: Some(ZLibVariant::MPQ), window_bits: None }] {
+                out.push(ESpec::Encrypted { key: "0123456789abcdef".to_string(), iv: iv.clone(), spec: Box::new(inner) });
+            }
+        }
+        let sizes = [BlockSizeSpec { size: 164, count: None }, BlockSizeSpec { size: 16 * 1024, count: Some(565) }, BlockSizeSpec { size: 256 * 1024, count: None }, BlockSizeSpec { size: 3 * 1024 * 1024, count: Some(2) }];
+        for s in &sizes {
+            for inner in [ESpec::None, ESpec::ZLib { level: None, variant: None, window_bits: None }] {
+                out.push(ESpec::BlockTable { chunks: vec![BlockChunk { size_spec: Some(s.clone()), spec: inner.clone() }, BlockChunk { size_spec: None, spec: ESpec::ZLib { level: Some(6), variant: Some(ZLibVariant::MPQ), window_bits: None } }] });
+                out.push(ESpec::BlockTable { chunks: vec![BlockChunk { size_spec: Some(s.clone()), spec: inner }] });
+            }
+        }
+        out.push(ESpec::BlockTable { chunks: vec![BlockChunk { size_spec: None, spec: ESpec::None }] });
+        out.push(ESpec::BlockTable { chunks: vec![BlockChunk { size_spec: None, spec: ESpec::Encrypted { key: "0123456789abcdef".to_string(), iv: vec![1, 2, 3, 4], spec: Box::new(ESpec::None) } }] });
+        out
+    }
+
+    fn espec(dg: &[u64]) -> Case {
+        let vals = espec_values();
+        let v = &vals[dg[0] as usize % vals.len()];
+        done(format!("espec: {v:?}"), Ok(roundtrip(v, proj::espec)))
+    }
+}
+// ---------------------------------------------------------------- C08 part (iii): fixtures
+
+/// Every file under the repository's `test_fixtures` that belongs to a `CascFormat` (decided by
+/// its directory and name, not by which parser happens to accept it) and that the parser of its
+/// format accepts: `build(parse(x)) = x` byte for byte. The two ESpec JSON files hold real ESpec
+/// strings; every string is one real input.
+pub mod fx {
+    use super::{FIXTURE_ROOT, FixErr, fix_err, norm_err};
+    use cascette_formats::CascFormat;
+
+    pub enum Outcome {
+        ByteIdentical,
+        /// the format's parser does not accept the file: outside the clause
+        NotAccepted(String),
+        Violation(FixErr),
+    }
+
+    fn format_of(rel: &str) -> Option<&'static str> {
+        let (dir, name) = rel.split_once('/')?;
+        if name == "manifest.json" || name.starts_with('.') {
+            return None;
+        }
+        Some(match dir {
+            "archive" if name.ends_with(".index") => "archive-index",
+            "config" if name.ends_with("build_config.txt") => "build-config",
+            "config" if name.ends_with("keyring_config.txt") => "keyring-config",
+            "download" => "download",
+            "encoding" => "encoding",
+            "espec" if name.ends_with(".json") => "espec-list",
+            "install" => "install",
+            "patch_archive" => "patch-archive",
+            "patch_index" => "patch-index",
+            "root" => "root",
+            "tvfs" if name.ends_with(".bin") => "tvfs",
+            "tvfs" if name.ends_with(".blte") => "blte",
+            "zbsdiff" if name.ends_with(".zbsdiff") => "zbsdiff",
+            _ => return None,
+        })
+    }
+
+    /// (relative path, format), sorted.
+    pub fn list() -> Vec<(String, &'static str)> {
+        let mut out = Vec::new();
+        let Ok(rd) = std::fs::read_dir(FIXTURE_ROOT) else { return out };
+        let mut dirs: Vec<_> = rd.flatten().map(|e| e.path()).filter(|p| p.is_dir()).collect();
+        dirs.sort();
+        for d in dirs {
+            let Ok(rd) = std::fs::read_dir(&d) else { continue };
+            let mut files: Vec<_> = rd.flatten().map(|e| e.path()).filter(|p| p.is_file()).collect();
+            files.sort();
+            for f in files {
+                let rel = format!("{}/{}", d.file_name().unwrap().to_string_lossy(), f.file_name().unwrap().to_string_lossy());
+                if let Some(fmt) = format_of(&rel) {
+                    out.push((rel, fmt));
+                }
+            }
+        }
+        out
+    }
+
+    fn one<T: CascFormat>(x: &[u8]) -> Outcome {
+        let v = match T::parse(x) {
+            Ok(v) => v,
+            Err(e) => return Outcome::NotAccepted(e.to_string()),
+        };
+        let y = match v.build() {
+            Ok(y) => y,
+            Err(e) => return Outcome::Violation(fix_err("fixture-rebuild-fails", norm_err(&e.to_string()), format!("parse accepts the real file but build() fails: {e}"))),
+        };
+        if y == x {
+            return Outcome::ByteIdentical;
+        }
+        let at = y.iter().zip(x.iter()).position(|(a, b)| a != b).unwrap_or(y.len().min(x.len()));
+        let show = |d: &[u8]| hex::encode(&d[at.min(d.len())..(at + 16).min(d.len())]);
+        Outcome::Violation(fix_err("fixture-not-byte-identical", "", format!("build(parse(x)) differs from the real file at byte {at} (file {} bytes: …{}…, rebuilt {} bytes: …{}…)", x.len(), show(x), y.len(), show(&y))))
+    }
+
+    /// The ESpec strings of an ESpec fixture list: every string that is an element of an array
+    /// (descriptions, versions and hashes are object members).
+    fn espec_strings(v: &serde_json::Value, in_array: bool, out: &mut Vec<String>) {
+        match v {
+            serde_json::Value::String(s) if in_array => out.push(s.clone()),
+            serde_json::Value::Array(a) => a.iter().for_each(|x| espec_strings(x, true, out)),
+            serde_json::Value::Object(m) => m.values().for_each(|x| espec_strings(x, false, out)),
+            _ => {}
+        }
+    }
+
+    pub fn check(rel: &str, fmt: &str) -> (Outcome, u64) {
+        let Ok(x) = std::fs::read(std::path::Path::new(FIXTURE_ROOT).join(rel)) else { return (Outcome::NotAccepted("unreadable".into()), 0) };
+        use cascette_formats::{archive::ArchiveIndex, blte::BlteFile, config::BuildConfig, config::KeyringConfig, download::DownloadManifest, encoding::EncodingFile, espec::ESpec, install::InstallManifest, patch_archive::PatchArchive, patch_index::PatchIndex, root::RootFile, tvfs::TvfsFile, zbsdiff::ZbsDiff};
+        let o = match fmt {
+            "archive-index" => one::<ArchiveIndex>(&x),
+            "build-config" => one::<BuildConfig>(&x),
+            "keyring-config" => one::<KeyringConfig>(&x),
+            "download" => one::<DownloadManifest>(&x),
+            "encoding" => one::<EncodingFile>(&x),
+            "install" => one::<InstallManifest>(&x),
+            "patch-archive" => one::<PatchArchive>(&x),
+            "patch-index" => one::<PatchIndex>(&x),
+            "root" => one::<RootFile>(&x),
+            "tvfs" => one::<TvfsFile>(&x),
+            "blte" => one::<BlteFile>(&x),
+            "zbsdiff" => one::<ZbsDiff>(&x),
+            "espec-list" => {
+                let mut strings = Vec::new();
+                if let Ok(j) = serde_json::from_slice::<serde_json::Value>(&x) {
+                    espec_strings(&j, false, &mut strings);
+                }
+                strings.sort();
+                strings.dedup();
+                let mut bad: Vec<String> = Vec::new();
+                let mut accepted = 0u64;
+                for s in &strings {
+                    match one::<ESpec>(s.as_bytes()) {
+                        Outcome::ByteIdentical => accepted += 1,
+                        Outcome::NotAccepted(_) => {}
+                        Outcome::Violation(e) => {
+                            accepted += 1;
+                            if bad.len() < 3 {
+                                bad.push(format!("{s:?}: {}", e.detail));
+                            }
+                        }
+                    }
+                }
+                if bad.is_empty() {
+                    return (if accepted > 0 { Outcome::ByteIdentical } else { Outcome::NotAccepted("no ESpec string accepted".into()) }, accepted);
+                }
+                return (Outcome::Violation(fix_err("fixture-not-byte-identical", "", format!("real ESpec strings that do not come back as they went in (first of them): {}", bad.join(" ; ")))), accepted);
+            }
+            _ => Outcome::NotAccepted("no format".into()),
+        };
+        let n = u64::from(!matches!(o, Outcome::NotAccepted(_)));
+        (o, n)
     }
 }
 
@@ -845,32 +2368,109 @@ fn thread_cpu() -> Duration {
     Duration::new(ts.tv_sec as u64, ts.tv_nsec as u32)
 }
 
+fn sig_of(prefix: &str, e: &FixErr) -> String {
+    if e.disc.is_empty() { format!("{prefix}|{}", e.kind) } else { format!("{prefix}|{}|{}", e.kind, e.disc) }
+}
+
 /// `vcheck worker c02 <status>`
 pub fn worker_main(status_path: &str) -> i32 {
     crate::util::install_quiet_panic_hook();
     let targets = targets();
     let mut seed_cache: std::collections::HashMap<String, Vec<(String, Vec<u8>)>> = Default::default();
     let seed_cache = std::cell::RefCell::new(&mut seed_cache);
+    let fixture_list = std::cell::OnceCell::new();
     crate::enumx::worker_loop(status_path, |ctx: &WorkerCtx, task: &Value, start: u64| {
         let tname = task["target"].as_str().unwrap_or("");
-        let Some(tg) = targets.iter().find(|t| t.name == tname) else { return json!({"error": "unknown target"}) };
-        let seed_idx = task["seed"].as_u64().unwrap_or(0) as usize;
         let class = Class::from(task["class"].as_str().unwrap_or(""));
         let thorough = task["thorough"].as_bool().unwrap_or(false);
-        let mode_c08 = task["mode"].as_str() == Some("c08");
         let lo = task["lo"].as_u64().unwrap_or(0).max(start);
         let hi = task["hi"].as_u64().unwrap_or(0);
+        let mut emitted: std::collections::HashSet<String> = Default::default();
+        let mut suppressed = 0u64;
+
+        // ---- C08 part (ii): builder values
+        if class == Class::Builder {
+            let (mut held, mut refused, mut violating) = (0u64, 0u64, 0u64);
+            for idx in lo..hi {
+                ctx.begin_case(idx);
+                let r = std::panic::catch_unwind(|| bv::eval(tname, idx, thorough));
+                let (kind, sig, detail, desc) = match r {
+                    Ok(c) => match c.outcome {
+                        bv::Outcome::Held => {
+                            held += 1;
+                            continue;
+                        }
+                        bv::Outcome::Refused(_) => {
+                            refused += 1;
+                            continue;
+                        }
+                        bv::Outcome::Violation(e) => (e.kind.clone(), sig_of(&format!("builder:{tname}"), &e), e.detail, c.desc),
+                    },
+                    Err(e) => {
+                        let loc = take_last_panic_loc().unwrap_or_default();
+                        let msg = crate::util::panic_message(&e);
+                        ("builder-panics".to_string(), format!("builder:{tname}|builder-panics|{}|{}", norm_loc(&loc), norm_msg(&msg)), format!("panic at {loc}: {msg}"), format!("{tname} builder program #{idx}"))
+                    }
+                };
+                violating += 1;
+                if emitted.insert(sig.clone()) {
+                    ctx.emit(&json!({"kind": kind, "sig": sig, "detail": format!("{desc} — {detail}"), "target": tname, "class": "builder", "case": idx, "program": desc,
+                                      "replay": {"part": "builder", "target": tname, "case": idx, "thorough": thorough}}));
+                } else {
+                    suppressed += 1;
+                }
+            }
+            return json!({"evaluated": hi.saturating_sub(lo), "builder_held": held, "builder_refused": refused, "builder_violating": violating, "suppressed_duplicates": suppressed});
+        }
+
+        // ---- C08 part (iii): fixtures
+        if class == Class::Fixture {
+            let list = fixture_list.get_or_init(fx::list);
+            let (mut identical, mut not_accepted, mut inputs) = (0u64, 0u64, 0u64);
+            for idx in lo..hi {
+                ctx.begin_case(idx);
+                let Some((rel, fmt)) = list.get(idx as usize) else { continue };
+                let r = std::panic::catch_unwind(|| fx::check(rel, fmt));
+                let (kind, sig, detail) = match r {
+                    Ok((fx::Outcome::ByteIdentical, n)) => {
+                        identical += 1;
+                        inputs += n;
+                        continue;
+                    }
+                    Ok((fx::Outcome::NotAccepted(_), _)) => {
+                        not_accepted += 1;
+                        continue;
+                    }
+                    Ok((fx::Outcome::Violation(e), n)) => {
+                        inputs += n;
+                        (e.kind.clone(), sig_of(&format!("fixture:{rel}"), &FixErr { disc: String::new(), ..e.clone() }), e.detail)
+                    }
+                    Err(e) => {
+                        let loc = take_last_panic_loc().unwrap_or_default();
+                        let msg = crate::util::panic_message(&e);
+                        ("fixture-rebuild-panics".to_string(), format!("fixture:{rel}|fixture-rebuild-panics|{}", norm_loc(&loc)), format!("panic at {loc}: {msg}"))
+                    }
+                };
+                ctx.emit(&json!({"kind": kind, "sig": sig, "detail": format!("{rel} ({fmt}): {detail}"), "target": fmt, "class": "fixture", "case": idx, "fixture": rel,
+                                  "replay": {"part": "fixture", "fixture": rel, "format": fmt}}));
+            }
+            return json!({"evaluated": hi.saturating_sub(lo), "fixtures_byte_identical": identical, "fixtures_not_accepted": not_accepted, "fixture_inputs": inputs});
+        }
+
+        // ---- mutants (C02, and part (i) of C08)
+        let Some(tg) = targets.iter().find(|t| t.name == tname) else { return json!({"error": "unknown target"}) };
+        let seed_idx = task["seed"].as_u64().unwrap_or(0) as usize;
+        let mode_c08 = task["mode"].as_str() == Some("c08");
         let mut cache = seed_cache.borrow_mut();
         let seeds = cache.entry(tname.to_string()).or_insert_with(|| (tg.seeds)());
         let empty: (String, Vec<u8>) = (String::new(), Vec::new());
         let (seed_name, seed) = seeds.get(seed_idx).unwrap_or(&empty);
+        let full = full_subst(seed_name, seed.len(), thorough);
         let mut evaluated = 0u64;
         let mut accepted = 0u64;
         let mut fix_checked = 0u64;
-        let mut emitted: std::collections::HashSet<String> = Default::default();
-        let mut suppressed = 0u64;
         let mut max_req_seen = 0usize;
-        for_each_case(class, seed, thorough, tg.text, lo, hi, |idx, bytes| {
+        for_each_case(class, seed, full, thorough, mode_c08, tg.text, lo, hi, |idx, bytes| {
             ctx.begin_case(idx);
             evaluated += 1;
             let t0 = thread_cpu();
@@ -882,7 +2482,7 @@ pub fn worker_main(status_path: &str) -> i32 {
                 if emitted.insert(sig.clone()) {
                     ctx.emit(&json!({"kind": kind, "sig": sig, "detail": detail, "target": tname, "seed": seed_name, "class": class.name(), "case": idx,
                                       "input_len": bytes.len(), "input_hex": if bytes.len() <= 8192 { json!(hex::encode(bytes)) } else { Value::Null },
-                                      "replay": {"target": tname, "seed": seed_idx, "class": class.name(), "case": idx, "thorough": thorough}}));
+                                      "replay": {"target": tname, "seed": seed_idx, "class": class.name(), "case": idx, "thorough": thorough, "mode": if mode_c08 { "c08" } else { "c02" }}}));
                 } else {
                     suppressed += 1;
                 }
@@ -911,7 +2511,7 @@ pub fn worker_main(status_path: &str) -> i32 {
                             let fr = std::panic::catch_unwind(std::panic::AssertUnwindSafe(|| fix(bytes)));
                             match fr {
                                 Ok(Ok(())) => {}
-                                Ok(Err((kind, detail))) => report(&kind, format!("{tname}|{kind}"), detail),
+                                Ok(Err(e)) => report(&e.kind, sig_of(tname, &e), e.detail.clone()),
                                 Err(e) => {
                                     let loc = take_last_panic_loc().unwrap_or_default();
                                     let msg = crate::util::panic_message(&e);
@@ -929,8 +2529,16 @@ pub fn worker_main(status_path: &str) -> i32 {
 
 // ---------------------------------------------------------------- parent
 
+/// Cases per task so that a task costs roughly the same for every seed size.
+fn chunk_for(len: usize, c08: bool) -> u64 {
+    // C08 parses twice, builds twice and projects twice per accepted case
+    let budget: u64 = if c08 { 1_500_000 } else { 4_000_000 };
+    (budget / (len as u64 + 64)).clamp(100, 20_000)
+}
+
 fn plan(tier: Tier, mode: &str, only_fix: bool) -> (Vec<Value>, u64, Vec<Value>) {
     let thorough = tier == Tier::Thorough;
+    let c08 = mode == "c08";
     let mut tasks = Vec::new();
     let mut total = 0u64;
     let mut seed_info = Vec::new();
@@ -946,19 +2554,19 @@ fn plan(tier: Tier, mode: &str, only_fix: bool) -> (Vec<Value>, u64, Vec<Value>)
             if !big || thorough {
                 classes.insert(0, Class::Subst);
             }
-            if thorough {
+            if thorough && (!c08 || seed.len() <= C08_ALL_POSITIONS_MAX) {
                 classes.push(Class::Pair);
             }
             if big && !thorough && seed.len() > 60_000 {
                 // very large fixtures: windows + extensions only in the quick tier
                 classes.retain(|c| matches!(c, Class::Window | Class::Ext));
             }
+            let full = full_subst(sname, seed.len(), thorough);
             let mut seed_total = 0u64;
             for c in classes {
-                let n = class_count(c, seed, thorough, tg.text);
+                let n = class_count(c, seed, full, thorough, c08, tg.text);
                 seed_total += n;
-                // chunk size by seed size (bigger seeds parse slower)
-                let chunk = (4_000_000 / (seed.len() as u64 + 64)).clamp(200, 20_000);
+                let chunk = chunk_for(seed.len(), c08);
                 let mut lo = 0;
                 while lo < n {
                     let hi = (lo + chunk).min(n);
@@ -967,10 +2575,10 @@ fn plan(tier: Tier, mode: &str, only_fix: bool) -> (Vec<Value>, u64, Vec<Value>)
                 }
             }
             total += seed_total;
-            seed_info.push(json!({"target": tg.name, "seed": sname, "len": seed.len(), "cases": seed_total}));
+            seed_info.push(json!({"target": tg.name, "seed": sname, "len": seed.len(), "cases": seed_total, "full_substitution": full}));
         }
         if let Some(text) = tg.text {
-            let n = class_count(Class::Text, &[], thorough, Some(text));
+            let n = class_count(Class::Text, &[], false, thorough, c08, Some(text));
             total += n;
             let chunk = 20_000;
             let mut lo = 0;
@@ -984,47 +2592,106 @@ fn plan(tier: Tier, mode: &str, only_fix: bool) -> (Vec<Value>, u64, Vec<Value>)
     (tasks, total, seed_info)
 }
 
+/// Tasks of C08 parts (ii) and (iii).
+fn plan_values(tier: Tier) -> (Vec<Value>, u64, u64) {
+    let thorough = tier == Tier::Thorough;
+    let mut tasks = Vec::new();
+    let mut builder_total = 0u64;
+    for fmt in bv::FORMATS {
+        let n = bv::count(fmt, thorough);
+        builder_total += n;
+        let chunk = 64;
+        let mut lo = 0;
+        while lo < n {
+            let hi = (lo + chunk).min(n);
+            tasks.push(json!({"target": fmt, "seed": 0, "class": "builder", "thorough": thorough, "mode": "c08", "lo": lo, "hi": hi}));
+            lo = hi;
+        }
+    }
+    let nfix = fx::list().len() as u64;
+    for i in 0..nfix {
+        tasks.push(json!({"target": "fixtures", "seed": 0, "class": "fixture", "thorough": thorough, "mode": "c08", "lo": i, "hi": i + 1}));
+    }
+    (tasks, builder_total, nfix)
+}
+
+fn pool_config(tier: Tier) -> PoolConfig {
+    PoolConfig { mode: "c02".to_string(), workers: crate::util::workers(), case_timeout: Duration::from_secs(5), max_deaths_per_task: 40, deadline: Some(Instant::now() + Duration::from_secs(tier.pick(170, 3000))) }
+}
+
 fn run_mode(prop: &str, mode: &str, tier: Tier, seed: u64) -> i32 {
     let rep = Report::new(prop, tier, seed, Level::Exploration);
-    let only_fix = mode == "c08";
-    let (tasks, planned, seed_info) = plan(tier, mode, only_fix);
-    rep.set_rule("per target × seed: every byte substitution (all 255 values for seeds ≤4 KiB, boundary set otherwise), every truncation length, extensions by 1/16/4096 bytes of 00/FF, every 2/3/4/5/8-byte window within 64 bytes of start/end set to {0,1,mid,mid+1,max-1,max} in both endiannesses, (thorough) every pair of 1/2/4-byte boundary windows within 32 bytes of start/end; text targets additionally every string of ≤L grammar tokens and every string of ≤2 arbitrary bytes; every generated case differs from its seed and from every other case of the same (seed, class), so distinct_nontrivial = cases evaluated");
+    let c08 = mode == "c08";
+    let (mut tasks, planned, seed_info) = plan(tier, mode, c08);
+    let (mut builder_planned, mut fixtures_planned) = (0u64, 0u64);
+    if c08 {
+        let (vt, b, f) = plan_values(tier);
+        builder_planned = b;
+        fixtures_planned = f;
+        // values and fixtures first: they are few and a death there must not wait for the mutants
+        let mut all = vt;
+        all.append(&mut tasks);
+        tasks = all;
+    }
+    rep.set_rule("per target × seed (repository fixtures and small builder-made artifacts): every byte substitution (all 255 values for every builder-made seed and every fixture ≤ 640 bytes, except — quick tier only — inside zero fill more than 48 bytes away from the nearest non-zero byte; thorough: all 255 values everywhere in every seed ≤ 4352 bytes; the boundary set {00,01,7F,80,FE,FF,b-1,b+1,b^80} otherwise), every truncation length, extensions by 1/16/4096 bytes of 00/FF, every 2/3/4/5/8-byte window within 64 bytes of start/end set to {0,1,mid,mid+1,max-1,max} in both endiannesses, (thorough) every pair of 1/2/4-byte boundary windows within 32 bytes of start/end; seeds above 4352 bytes are substituted at every position in the thorough tier (C08: up to 32 KiB; above that, and in the quick tier, at the first and last 512 positions and every 61st in between; C08 also leaves the pair class out above 32 KiB); text targets additionally every string of ≤L grammar tokens and every string of ≤2 arbitrary bytes; every generated case differs from its seed and from every other case of the same (seed, class)");
+    if c08 {
+        rep.set_rule("C08 counts as non-trivial: (i) every mutant the parser accepts (fixed-point and logical-projection check), (ii) every builder program (mixed-radix enumeration of the format's small call alphabet, each combination once) for which the builder produced a value, (iii) every fixture (every ESpec string of the ESpec fixture lists) the parser of its format accepts");
+    } else {
+        rep.set_rule("distinct_nontrivial = cases evaluated");
+    }
     rep.assume("isolation: each case runs in a worker process under catch_unwind with a counting allocator (single requests above 1 GiB + 64 MiB are refused; non-decompressing targets may not request more than max(16 MiB, 4096 × input length) at once); 5 s of CPU time per case (or 100 s without progress)");
     rep.assume("inputs more than one (thorough: two header/footer) deviations away from every seed are not reached");
-    let cfg = PoolConfig {
-        mode: "c02".to_string(),
-        workers: crate::util::workers(),
-        case_timeout: Duration::from_secs(5),
-        max_deaths_per_task: 40,
-        deadline: Some(Instant::now() + Duration::from_secs(tier.pick(150, 3000))),
-    };
+    if c08 {
+        rep.assume("the logical projections of module `proj` (what counts as content per format) and the models of what was put into the bytes-only builders (root, TVFS, patch archive, patch index, ZBSDIFF) are trusted; the text configs expose no key iterator: their projection looks up every key that occurs in front of a '=' in the input or in the rebuilt text");
+    }
+    let cfg = pool_config(tier);
     let n_tasks = tasks.len();
     let res = run_pool(&cfg, tasks);
     let mut evaluated = 0u64;
     let mut accepted = 0u64;
     let mut fix_checked = 0u64;
     let mut per_target: std::collections::BTreeMap<String, (u64, u64)> = Default::default();
+    let mut per_builder: std::collections::BTreeMap<String, (u64, u64, u64)> = Default::default();
+    let (mut fx_identical, mut fx_not_accepted, mut fx_inputs, mut fx_evaluated) = (0u64, 0u64, 0u64, 0u64);
     for (task, s) in &res.summaries {
         let e = s["evaluated"].as_u64().unwrap_or(0);
-        let a = s["accepted"].as_u64().unwrap_or(0);
-        evaluated += e;
-        accepted += a;
-        fix_checked += s["fix_checked"].as_u64().unwrap_or(0);
-        let t = per_target.entry(task["target"].as_str().unwrap_or("").to_string()).or_default();
-        t.0 += e;
-        t.1 += a;
+        match task["class"].as_str().unwrap_or("") {
+            "builder" => {
+                let b = per_builder.entry(task["target"].as_str().unwrap_or("").to_string()).or_default();
+                b.0 += s["builder_held"].as_u64().unwrap_or(0);
+                b.1 += s["builder_refused"].as_u64().unwrap_or(0);
+                b.2 += s["builder_violating"].as_u64().unwrap_or(0);
+            }
+            "fixture" => {
+                fx_evaluated += e;
+                fx_identical += s["fixtures_byte_identical"].as_u64().unwrap_or(0);
+                fx_not_accepted += s["fixtures_not_accepted"].as_u64().unwrap_or(0);
+                fx_inputs += s["fixture_inputs"].as_u64().unwrap_or(0);
+            }
+            _ => {
+                let a = s["accepted"].as_u64().unwrap_or(0);
+                evaluated += e;
+                accepted += a;
+                fix_checked += s["fix_checked"].as_u64().unwrap_or(0);
+                let t = per_target.entry(task["target"].as_str().unwrap_or("").to_string()).or_default();
+                t.0 += e;
+                t.1 += a;
+            }
+        }
     }
     for (_task, v) in &res.violations {
         let kind = v["kind"].as_str().unwrap_or("?");
         let is_c08_kind = !matches!(kind, "panic" | "disproportionate-allocation" | "slow");
-        if (mode == "c08") != is_c08_kind {
+        if c08 != is_c08_kind {
             continue; // each property reports its own clauses
         }
         rep.violation(kind, v["sig"].as_str().unwrap_or("?"), v.clone(), v["detail"].as_str().unwrap_or(""));
     }
-    if mode == "c02" {
-        for d in &res.deaths {
-            let t = d.task["target"].as_str().unwrap_or("?");
+    for d in &res.deaths {
+        let t = d.task["target"].as_str().unwrap_or("?");
+        let class = d.task["class"].as_str().unwrap_or("");
+        let what = if d.kind == "hang" { "hangs" } else { "aborts" };
+        if !c08 {
             let (kind, sig, detail) = if d.kind == "hang" {
                 ("hang".to_string(), format!("{t}|hang"), format!("case {} of {:?} did not return within 5 s of CPU time", d.case_idx, d.task))
             } else if d.refused_alloc > 0 {
@@ -1038,13 +2705,41 @@ fn run_mode(prop: &str, mode: &str, tier: Tier, seed: u64) -> i32 {
             };
             evaluated += 1;
             rep.violation(&kind, &sig, json!({"task": d.task, "case": d.case_idx, "signal": d.signal, "refused_alloc": d.refused_alloc, "replay": {"target": t, "seed": d.task["seed"], "class": d.task["class"], "case": d.case_idx, "thorough": d.task["thorough"]}}), &detail);
+        } else if class == "builder" || class == "fixture" {
+            let part = if class == "builder" { format!("builder:{t}") } else { "fixture".to_string() };
+            rep.violation(
+                &format!("{class}-{what}"),
+                &format!("{part}|{class}-{what}"),
+                json!({"task": d.task, "case": d.case_idx, "signal": d.signal, "refused_alloc": d.refused_alloc, "replay": {"part": class, "target": t, "case": d.case_idx, "thorough": d.task["thorough"]}}),
+                &format!("case {} of {:?}: the worker died (signal {:?}, refused allocation {} bytes)", d.case_idx, d.task, d.signal, d.refused_alloc),
+            );
+        } else {
+            // A death inside a mutant case is C02's finding when the parser alone dies. It is
+            // C08's when the parser survives the input and the rebuild kills the process: the
+            // one case is run again in C02 mode to tell.
+            let mut one = d.task.clone();
+            one["mode"] = json!("c02");
+            one["lo"] = json!(d.case_idx);
+            one["hi"] = json!(d.case_idx + 1);
+            let again = run_pool(&PoolConfig { workers: 1, deadline: None, ..pool_config(tier) }, vec![one]);
+            if again.deaths.is_empty() && !again.summaries.is_empty() {
+                evaluated += 1;
+                rep.violation(
+                    &format!("rebuild-{what}"),
+                    &format!("{t}|rebuild-{what}"),
+                    json!({"task": d.task, "case": d.case_idx, "signal": d.signal, "refused_alloc": d.refused_alloc, "replay": {"target": t, "seed": d.task["seed"], "class": d.task["class"], "case": d.case_idx, "thorough": d.task["thorough"], "mode": "c08"}}),
+                    &format!("case {} of {:?}: the parser accepts the input, rebuilding it kills the process (signal {:?}, refused allocation {} bytes)", d.case_idx, d.task, d.signal, d.refused_alloc),
+                );
+            }
         }
     }
     if !res.abandoned_tasks.is_empty() {
         rep.cap_hit(&format!("{} of {n_tasks} tasks not completed (wall-clock budget or repeated worker deaths)", res.abandoned_tasks.len()));
     }
-    rep.add_evaluations(evaluated);
-    rep.add_nontrivial_count(if mode == "c08" { fix_checked } else { evaluated });
+    let builder_values: u64 = per_builder.values().map(|b| b.0 + b.2).sum();
+    let builder_done: u64 = per_builder.values().map(|b| b.0 + b.1 + b.2).sum();
+    rep.add_evaluations(evaluated + builder_done + fx_evaluated);
+    rep.add_nontrivial_count(if c08 { fix_checked + builder_values + fx_inputs } else { evaluated });
     for (t, (e, a)) in &per_target {
         rep.add_outcome(crate::util::fnv64_str(&format!("{t}|{}|{}", e > &0, a > &0)));
     }
@@ -1053,8 +2748,37 @@ fn run_mode(prop: &str, mode: &str, tier: Tier, seed: u64) -> i32 {
     rep.extra("fixpoint_checked", json!(fix_checked));
     rep.extra("per_target", json!(per_target.iter().map(|(k, (e, a))| json!({"target": k, "evaluated": e, "accepted": a})).collect::<Vec<_>>()));
     rep.extra("seeds", json!(seed_info));
+    if c08 {
+        rep.extra("builder_programs_planned", json!(builder_planned));
+        rep.extra("builder_values", json!(per_builder.iter().map(|(k, (h, r, v))| json!({"format": k, "round_trip_held": h, "builder_refused_program": r, "violating": v})).collect::<Vec<_>>()));
+        rep.extra("fixtures", json!({"files": fixtures_planned, "byte_identical": fx_identical, "not_accepted_by_their_parser": fx_not_accepted, "accepted_inputs_checked": fx_inputs}));
+        for (k, (h, r, v)) in &per_builder {
+            rep.add_outcome(crate::util::fnv64_str(&format!("builder|{k}|{}|{}|{}", h > &0, r > &0, v > &0)));
+        }
+        // vacuity guards of parts (ii) and (iii)
+        for fmt in bv::FORMATS {
+            let b = per_builder.get(*fmt).copied().unwrap_or_default();
+            if b.0 + b.2 == 0 && res.abandoned_tasks.is_empty() {
+                rep.machinery_error(&format!("builder part: no value of format {fmt} was produced and checked"));
+            }
+        }
+        if fixtures_planned < 20 || (fx_evaluated < fixtures_planned && res.abandoned_tasks.is_empty()) {
+            rep.machinery_error(&format!("fixture part: {fixtures_planned} fixtures found, {fx_evaluated} evaluated"));
+        }
+        for tg in targets() {
+            if tg.fix.is_some() && per_target.get(tg.name).map(|x| x.1).unwrap_or(0) == 0 && res.abandoned_tasks.is_empty() {
+                rep.machinery_error(&format!("target {}: the parser accepted no mutant (not even near a valid seed)", tg.name));
+            }
+        }
+    }
     for s in seed_info.iter().take(6) {
         rep.sample(s.clone());
+    }
+    if c08 {
+        for fmt in ["install", "tvfs", "espec"] {
+            let c = bv::eval(fmt, 7, false);
+            rep.sample(json!({"builder_program": c.desc, "outcome": match c.outcome { bv::Outcome::Held => "round trip held".to_string(), bv::Outcome::Refused(e) => format!("builder refused: {e}"), bv::Outcome::Violation(e) => format!("violation {}", e.kind) }}));
+        }
     }
     if evaluated < planned / 2 && res.abandoned_tasks.is_empty() {
         rep.machinery_error(&format!("only {evaluated} of {planned} planned cases evaluated"));
@@ -1071,7 +2795,49 @@ pub fn run_c08(tier: Tier, seed: u64) -> i32 {
 
 pub fn replay(w: &Value) -> i32 {
     let wit = &w["witness"];
-    let tname = wit["target"].as_str().or_else(|| wit["replay"]["target"].as_str()).unwrap_or("");
+    let r = &wit["replay"];
+    match r["part"].as_str() {
+        Some("builder") => {
+            let fmt = r["target"].as_str().unwrap_or("");
+            let c = bv::eval(fmt, r["case"].as_u64().unwrap_or(0), r["thorough"].as_bool().unwrap_or(false));
+            println!("replaying builder program: {}", c.desc);
+            return match c.outcome {
+                bv::Outcome::Held => {
+                    println!("round trip held, no violation");
+                    0
+                }
+                bv::Outcome::Refused(e) => {
+                    println!("the builder refuses the program ({e}), no violation");
+                    0
+                }
+                bv::Outcome::Violation(e) => {
+                    println!("violates: {}: {}", e.kind, e.detail);
+                    1
+                }
+            };
+        }
+        Some("fixture") => {
+            let rel = r["fixture"].as_str().unwrap_or("");
+            let fmt = r["format"].as_str().unwrap_or("");
+            println!("replaying fixture {rel} ({fmt})");
+            return match fx::check(rel, fmt).0 {
+                fx::Outcome::ByteIdentical => {
+                    println!("build(parse(x)) = x, no violation");
+                    0
+                }
+                fx::Outcome::NotAccepted(e) => {
+                    println!("the parser does not accept the file ({e}), no violation");
+                    0
+                }
+                fx::Outcome::Violation(e) => {
+                    println!("violates: {}: {}", e.kind, e.detail);
+                    1
+                }
+            };
+        }
+        _ => {}
+    }
+    let tname = wit["target"].as_str().or_else(|| r["target"].as_str()).unwrap_or("");
     let tgs = targets();
     let Some(tg) = tgs.iter().find(|t| t.name == tname) else {
         println!("MACHINERY-ERROR: unknown target {tname}");
@@ -1081,16 +2847,15 @@ pub fn replay(w: &Value) -> i32 {
         hex::decode(h).unwrap_or_default()
     } else {
         // regenerate from (seed, class, case)
-        let r = &wit["replay"];
         let seeds = (tg.seeds)();
         let si = r["seed"].as_u64().unwrap_or(0) as usize;
         let class = Class::from(r["class"].as_str().unwrap_or(""));
         let case = r["case"].as_u64().unwrap_or(0);
         let thorough = r["thorough"].as_bool().unwrap_or(false);
         let mut out = Vec::new();
-        let empty = Vec::new();
-        let seed = seeds.get(si).map(|s| &s.1).unwrap_or(&empty);
-        for_each_case(class, seed, thorough, tg.text, case, case + 1, |_, b| out = b.to_vec());
+        let empty = (String::new(), Vec::new());
+        let (sname, seed) = seeds.get(si).unwrap_or(&empty);
+        for_each_case(class, seed, full_subst(sname, seed.len(), thorough), thorough, r["mode"].as_str() == Some("c08"), tg.text, case, case + 1, |_, b| out = b.to_vec());
         out
     };
     println!("replaying {} bytes on target {tname} (in-process: a panic/abort here is the reproduction)", bytes.len());
@@ -1103,8 +2868,8 @@ pub fn replay(w: &Value) -> i32 {
         Ok(ok) => {
             if ok {
                 if let Some(fix) = tg.fix {
-                    if let Err((k, d)) = fix(&bytes) {
-                        println!("violates: {k}: {d}");
+                    if let Err(e) = fix(&bytes) {
+                        println!("violates: {}: {}", e.kind, e.detail);
                         return 1;
                     }
                 }
